@@ -26,6 +26,16 @@ Definition C06_statement : Prop :=
 
 Ltac only_pub := unfold only_publisher; vm_compute; repeat constructor.
 
+(* observations of the final state of a concrete run, by computation *)
+Lemma arun_obs {B} (f : astate -> B) s0 tr v :
+  f <$> arun s0 tr = Some v -> exists s', arun s0 tr = Some s' /\ f s' = v.
+Proof. destruct (arun s0 tr) as [s'|]; simpl; intros [= <-]; eauto. Qed.
+Lemma mrun_obs {B} (f : mstate -> B) s0 tr v :
+  f <$> mrun s0 tr = Some v -> exists s', mrun s0 tr = Some s' /\ f s' = v.
+Proof. destruct (mrun s0 tr) as [s'|]; simpl; intros [= <-]; eauto. Qed.
+Lemma by_decide (P : Prop) {dec : Decision P} : bool_decide P = true -> P.
+Proof. apply bool_decide_eq_true. Qed.
+
 (* S7 + S12.  The host publishes 10 and 20 in quick succession; client 1 applies both downloads before
    its react system runs: two events, one token.  The second event is not swallowed: client 1 SERVES
    the asset and announces itself as owner; the host relays that to client 2.  From now on client 1's
@@ -42,17 +52,20 @@ Theorem C06_burst_overwrite_refuted :
   exists n p tr s',
     arun (ainit n) tr = Some s' /\ only_publisher p tr /\ no_joins tr /\ aquiescent s' /\
     known_S7 (ainit n) tr = true /\ known_S12 (ainit n) tr = true /\
-    last (published tr) = Some 30 /\ pstore s' p = Some 30 /\
+    last (published tr) = Some 30 /\ pstore s' p = Some 30 /\ pstore s' 2 = Some 30 /\
     pstore s' 1 = Some 20 /\ pserved s' 1 = Some 20 /\ 1 ∈ aconn s'.
 Proof.
-  exists 2%nat, 0, w_burst. eexists. split; [vm_compute; reflexivity|].
-  split; [only_pub|]. split; [reflexivity|]. split; [apply bool_decide_eq_true; vm_compute; reflexivity|].
-  vm_compute. repeat split; auto. apply elem_of_list_here.
+  exists 2%nat, 0, w_burst.
+  destruct (arun_obs (fun s => (aquiescentb s, pstore s 0, pstore s 2, pstore s 1, pserved s 1, bool_decide (1 ∈ aconn s)))
+              (ainit 2) w_burst (true, Some 30, Some 30, Some 20, Some 20, true)) as (s' & Hrun & Hobs); [vm_compute; reflexivity|].
+  injection Hobs as Hq H0 H2 H1 Hs1 Hin. apply bool_decide_eq_true in Hq, Hin.
+  exists s'. split; [exact Hrun|]. split; [only_pub|]. split; [reflexivity|]. split; [exact Hq|].
+  split; [vm_compute; reflexivity|]. split; [vm_compute; reflexivity|]. split; [reflexivity|]. auto 10.
 Qed.
 
 Theorem C06_refuted : ~ C06_statement.
 Proof.
-  intros H. destruct C06_burst_overwrite_refuted as (n & p & tr & s' & Hrun & Hop & Hnj & Hq & _ & _ & Hl & _ & H1 & _ & Hin).
+  intros H. destruct C06_burst_overwrite_refuted as (n & p & tr & s' & Hrun & Hop & Hnj & Hq & _ & _ & Hl & _ & _ & H1 & _ & Hin).
   specialize (H n p tr s' Hrun Hop Hnj Hq 1 (or_intror Hin)). rewrite H1, Hl in H. discriminate.
 Qed.
 
@@ -70,25 +83,32 @@ Theorem C06_republish_by_other_peer_refuted :
     published tr = [10; 20] /\ pstore s' 0 = Some 20 /\ pstore s' 2 = Some 20 /\
     pstore s' 1 = Some 10 /\ 1 ∈ aconn s'.
 Proof.
-  exists 2%nat, w_other_publisher. eexists. split; [vm_compute; reflexivity|].
-  split; [reflexivity|]. split; [vm_compute; reflexivity|].
-  split; [apply bool_decide_eq_true; vm_compute; reflexivity|].
-  vm_compute. repeat split; auto. apply elem_of_list_here.
+  exists 2%nat, w_other_publisher.
+  destruct (arun_obs (fun s => (aquiescentb s, pstore s 0, pstore s 2, pstore s 1, bool_decide (1 ∈ aconn s)))
+              (ainit 2) w_other_publisher (true, Some 20, Some 20, Some 10, true)) as (s' & Hrun & Hobs); [vm_compute; reflexivity|].
+  injection Hobs as Hq H0 H2 H1 Hin. apply bool_decide_eq_true in Hq, Hin.
+  exists s'. split; [exact Hrun|]. split; [reflexivity|]. split; [vm_compute; reflexivity|]. split; [exact Hq|].
+  split; [vm_compute; reflexivity|]. split; [vm_compute; reflexivity|]. split; [reflexivity|]. auto 10.
 Qed.
 
 (* S12 by the client's local build_full_sync.  A client that connects while it already holds the id
    (e.g. the same file loaded under the same uuid) serves it at once: the host's announcement in the
    snapshot is ignored, the joiner keeps its own content. *)
+Definition w_preloaded : list aevent :=
+  [APublish 0 10; AReact 0; ADeliver 0 1; ADownload 1; AReact 1; AJoin 2 (Some 5); ADeliver 0 2].
+
 Theorem join_preloaded_refuted :
   exists n tr c s',
     arun (ainit n) tr = Some s' /\ only_publisher 0 tr /\ ops_at_quiescence (ainit n) tr = true /\
     aquiescent s' /\ known_S7 (ainit n) tr = false /\ known_S12 (ainit n) tr = true /\
     c ∈ aconn s' /\ pstore s' 0 = Some 10 /\ pstore s' c = Some 5.
 Proof.
-  exists 1%nat, [APublish 0 10; AReact 0; ADeliver 0 1; ADownload 1; AReact 1; AJoin 2 (Some 5); ADeliver 0 2], 2.
-  eexists. split; [vm_compute; reflexivity|]. split; [only_pub|]. split; [vm_compute; reflexivity|].
-  split; [apply bool_decide_eq_true; vm_compute; reflexivity|].
-  vm_compute. repeat split; auto. apply elem_of_list_further, elem_of_list_here.
+  exists 1%nat, w_preloaded, 2.
+  destruct (arun_obs (fun s => (aquiescentb s, pstore s 0, pstore s 2, bool_decide (2 ∈ aconn s)))
+              (ainit 1) w_preloaded (true, Some 10, Some 5, true)) as (s' & Hrun & Hobs); [vm_compute; reflexivity|].
+  injection Hobs as Hq H0 H2 Hin. apply bool_decide_eq_true in Hq, Hin.
+  exists s'. split; [exact Hrun|]. split; [only_pub|]. split; [vm_compute; reflexivity|]. split; [exact Hq|].
+  split; [vm_compute; reflexivity|]. split; [vm_compute; reflexivity|]. auto.
 Qed.
 
 (* S12 by the host's build_full_sync.  Client 1 is the only publisher, everything is drain separated.
@@ -107,45 +127,58 @@ Theorem C06_host_stale_after_join_refuted :
     ops_at_quiescence (ainit n) tr = true /\ aquiescent s' /\
     known_S7 (ainit n) tr = false /\ known_S12 (ainit n) tr = true /\
     last (published tr) = Some 20 /\
-    pstore s' <$> [0; 1; 2; 3] = [Some 10; Some 20; Some 20; Some 10].
+    pstore s' 0 = Some 10 /\ pstore s' 1 = Some 20 /\ pstore s' 2 = Some 20 /\ pstore s' 3 = Some 10.
 Proof.
-  exists 1%nat, w_host_stale. eexists. split; [vm_compute; reflexivity|]. split; [only_pub|].
-  split; [unfold fresh_joins; vm_compute; repeat constructor|]. split; [vm_compute; reflexivity|].
-  split; [apply bool_decide_eq_true; vm_compute; reflexivity|].
-  vm_compute. repeat split; auto.
+  exists 1%nat, w_host_stale.
+  destruct (arun_obs (fun s => (aquiescentb s, pstore s 0, pstore s 1, pstore s 2, pstore s 3))
+              (ainit 1) w_host_stale (true, Some 10, Some 20, Some 20, Some 10)) as (s' & Hrun & Hobs); [vm_compute; reflexivity|].
+  injection Hobs as Hq H0 H1 H2 H3. apply bool_decide_eq_true in Hq.
+  exists s'. split; [exact Hrun|]. split; [only_pub|].
+  split; [unfold fresh_joins; vm_compute; repeat constructor|]. split; [vm_compute; reflexivity|]. split; [exact Hq|].
+  split; [vm_compute; reflexivity|]. split; [vm_compute; reflexivity|]. split; [reflexivity|]. auto.
 Qed.
 
 (* A join while the host is still downloading.  Client 1 publishes ONCE; the host has relayed the
    announcement and started its download when client 2 joins: the snapshot is built from Assets<T>, which
    does not hold the id yet; the completed download is swallowed by its token.  Client 2 never hears of
    the id.  Neither S7 nor S12 is involved. *)
+Definition w_join_window : list aevent :=
+  [APublish 1 10; AReact 1; ADeliver 1 0; AJoin 2 None; ADownload 0; AReact 0].
+
 Theorem join_during_download_refuted :
   exists n tr c s',
     arun (ainit n) tr = Some s' /\ published tr = [10] /\ fresh_joins tr /\ aquiescent s' /\
     known_S7 (ainit n) tr = false /\ known_S12 (ainit n) tr = false /\ known_join_window (ainit n) tr = true /\
     c ∈ aconn s' /\ pstore s' 0 = Some 10 /\ pstore s' c = None.
 Proof.
-  exists 1%nat, [APublish 1 10; AReact 1; ADeliver 1 0; AJoin 2 None; ADownload 0; AReact 0], 2.
-  eexists. split; [vm_compute; reflexivity|]. split; [reflexivity|].
-  split; [unfold fresh_joins; vm_compute; repeat constructor|].
-  split; [apply bool_decide_eq_true; vm_compute; reflexivity|].
-  vm_compute. repeat split; auto. apply elem_of_list_further, elem_of_list_here.
+  exists 1%nat, w_join_window, 2.
+  destruct (arun_obs (fun s => (aquiescentb s, pstore s 0, pstore s 2, bool_decide (2 ∈ aconn s)))
+              (ainit 1) w_join_window (true, Some 10, None, true)) as (s' & Hrun & Hobs); [vm_compute; reflexivity|].
+  injection Hobs as Hq H0 H2 Hin. apply bool_decide_eq_true in Hq, Hin.
+  exists s'. split; [exact Hrun|]. split; [reflexivity|].
+  split; [unfold fresh_joins; vm_compute; repeat constructor|]. split; [exact Hq|].
+  split; [vm_compute; reflexivity|]. split; [vm_compute; reflexivity|]. split; [vm_compute; reflexivity|]. auto.
 Qed.
 
 (* S7 without a burst: the host publishes once, a client joins between the insert and the host's react
    run: it is told twice (snapshot + broadcast), applies both downloads before reacting, serves the id,
    and misses the next overwrite. *)
+Definition w_join_react : list aevent :=
+  [APublish 0 10; AJoin 1 None; AReact 0; ADeliver 0 1; ADeliver 0 1; ADownload 1; ADownload 1; AReact 1;
+   ADeliver 1 0; APublish 0 20; AReact 0; ADeliver 0 1].
+
 Theorem join_before_react_refuted :
   exists tr s',
     arun (ainit 0) tr = Some s' /\ only_publisher 0 tr /\ fresh_joins tr /\ aquiescent s' /\
     known_S7 (ainit 0) tr = true /\ published tr = [10; 20] /\ pstore s' 0 = Some 20 /\ pstore s' 1 = Some 10.
 Proof.
-  exists [APublish 0 10; AJoin 1 None; AReact 0; ADeliver 0 1; ADeliver 0 1; ADownload 1; ADownload 1; AReact 1;
-          ADeliver 1 0; APublish 0 20; AReact 0; ADeliver 0 1].
-  eexists. split; [vm_compute; reflexivity|]. split; [only_pub|].
-  split; [unfold fresh_joins; vm_compute; repeat constructor|].
-  split; [apply bool_decide_eq_true; vm_compute; reflexivity|].
-  vm_compute. repeat split; auto.
+  exists w_join_react.
+  destruct (arun_obs (fun s => (aquiescentb s, pstore s 0, pstore s 1))
+              (ainit 0) w_join_react (true, Some 20, Some 10)) as (s' & Hrun & Hobs); [vm_compute; reflexivity|].
+  injection Hobs as Hq H0 H1. apply bool_decide_eq_true in Hq.
+  exists s'. split; [exact Hrun|]. split; [only_pub|].
+  split; [unfold fresh_joins; vm_compute; repeat constructor|]. split; [exact Hq|].
+  split; [vm_compute; reflexivity|]. auto.
 Qed.
 
 (* ---------- materials --------------------------------------------------------------------------- *)
@@ -170,38 +203,1363 @@ Definition w_material : list mevent :=
 Theorem M06_older_overwrites_newer_refuted :
   exists n tr s',
     mrun (minit n) tr = Some s' /\ monly_publisher 0 tr /\ mquiescent s' /\ mknown_S7 (minit n) tr = true /\
-    mpublished tr = [20; 30; 40] /\ mpstore s' <$> [0; 1; 2] = [Some 30; Some 30; Some 30].
+    mpublished tr = [20; 30; 40] /\ mpstore s' 0 = Some 30 /\ mpstore s' 1 = Some 30 /\ mpstore s' 2 = Some 30.
 Proof.
-  exists 2%nat, w_material. eexists. split; [vm_compute; reflexivity|].
-  split; [unfold monly_publisher; vm_compute; repeat constructor|].
-  split; [apply bool_decide_eq_true; vm_compute; reflexivity|].
-  vm_compute. repeat split; auto.
+  exists 2%nat, w_material.
+  destruct (mrun_obs (fun s => (mquiescentb s, mpstore s 0, mpstore s 1, mpstore s 2))
+              (minit 2) w_material (true, Some 30, Some 30, Some 30)) as (s' & Hrun & Hobs); [vm_compute; reflexivity|].
+  injection Hobs as Hq H0 H1 H2. apply bool_decide_eq_true in Hq.
+  exists s'. split; [exact Hrun|]. split; [unfold monly_publisher; vm_compute; repeat constructor|].
+  split; [exact Hq|]. split; [vm_compute; reflexivity|]. auto.
 Qed.
 
 Theorem M06_refuted : ~ M06_statement.
 Proof.
-  intros H. destruct M06_older_overwrites_newer_refuted as (n & tr & s' & Hrun & Hop & Hq & _ & Hp & Hs).
-  specialize (H n 0 tr s' Hrun Hop Hq 0 (or_introl eq_refl)). rewrite Hp in H.
-  injection Hs as Hs _. rewrite Hs in H. discriminate.
+  intros H. destruct M06_older_overwrites_newer_refuted as (n & tr & s' & Hrun & Hop & Hq & _ & Hp & Hs & _).
+  specialize (H n 0 tr s' Hrun Hop Hq 0 (or_introl eq_refl)). rewrite Hp, Hs in H. discriminate.
 Qed.
 
-(* The echo need not die out.  After two publications of the host (even of the same content) applied
-   together by both clients, there is a cycle: the two echoes reach the host, which relays each to the
-   other client and -- two events, one token -- broadcasts once; each client receives two messages,
-   applies both before reacting, and echoes again.  Six messages per turn, for ever, with no publication
-   and the same content everywhere. *)
+(* The echo need not die out.  After two publications of the host applied together by both clients there
+   is a CYCLE: the two echoes reach the host, which relays each to the other client and -- two events,
+   one token -- broadcasts once; each client receives two messages, applies both before reacting, and
+   echoes again.  Six messages per turn, for ever, with no further publication and the same content
+   everywhere: the traffic caused by two publications is unbounded. *)
+Global Instance mpeer_eq_dec : EqDecision mpeer.
+Proof. solve_decision. Defined.
+Global Instance mstate_eq_dec : EqDecision mstate.
+Proof. solve_decision. Defined.
+
 Definition w_echo_pre : list mevent :=
   [MPublish 0 20; MReact 0; MPublish 0 30; MReact 0;
    MDeliver 0 1; MDeliver 0 1; MDeliver 0 2; MDeliver 0 2; MReact 1; MReact 2].
 Definition w_echo_loop : list mevent :=
   [MDeliver 1 0; MDeliver 2 0; MReact 0; MDeliver 0 1; MDeliver 0 1; MDeliver 0 2; MDeliver 0 2; MReact 1; MReact 2].
+Definition s_echo : mstate :=
+  MState (list_to_map [(0, MPeer (Some 30) 0 false); (1, MPeer (Some 30) 0 false); (2, MPeer (Some 30) 0 false)])
+         [1; 2] (list_to_map [((0, 1), []); ((0, 2), []); ((1, 0), [30]); ((2, 0), [30])]).
 
 Theorem material_echo_cycle :
   exists n pre loop s,
     mrun (minit n) pre = Some s /\ monly_publisher 0 pre /\ length (mpublished pre) = 2%nat /\
     Forall mplain loop /\ mrun s loop = Some s /\ mtotal_sent s loop = 6%nat.
 Proof.
-  exists 2%nat, w_echo_pre, w_echo_loop. eexists. split; [vm_compute; reflexivity|].
+  exists 2%nat, w_echo_pre, w_echo_loop, s_echo.
+  split; [apply (by_decide _ (dec := decide _)); vm_compute; reflexivity|].
   split; [unfold monly_publisher; vm_compute; repeat constructor|]. split; [reflexivity|].
-  split; [repeat constructor|]. split; vm_compute; reflexivity.
+  split; [repeat constructor|].
+  split; [apply (by_decide _ (dec := decide _)); vm_compute; reflexivity|vm_compute; reflexivity].
 Qed.
+
+(* ================================================================================================
+   Part 0: channel operations
+   ================================================================================================ *)
+
+Lemma lget_insert {A} (L : gmap (peer * peer) (list A)) a b l a' b' :
+  lget (<[(a, b) := l]> L) a' b' = if decide ((a', b') = (a, b)) then l else lget L a' b'.
+Proof.
+  unfold lget. destruct (decide ((a', b') = (a, b))) as [Heq|Hne].
+  - rewrite Heq, lookup_insert. reflexivity.
+  - rewrite lookup_insert_ne by congruence. reflexivity.
+Qed.
+
+Lemma lget_push_link {A} (L : gmap (peer * peer) (list A)) a b vs a' b' :
+  lget (push_link L a b vs) a' b' = if decide ((a', b') = (a, b)) then lget L a b ++ vs else lget L a' b'.
+Proof. unfold push_link. apply lget_insert. Qed.
+
+Lemma lget_send_to {A} (L : gmap (peer * peer) (list A)) src dsts vs a b :
+  NoDup dsts ->
+  lget (send_to L src dsts vs) a b = if decide (a = src /\ b ∈ dsts) then lget L a b ++ vs else lget L a b.
+Proof.
+  intros Hnd. induction Hnd as [|d dsts Hnotin Hnd IH]; simpl.
+  - destruct (decide (a = src /\ b ∈ [])) as [[_ Hin]|_]; [inversion Hin|reflexivity].
+  - rewrite lget_push_link. destruct (decide ((a, b) = (src, d))) as [Heq|Hne].
+    + inversion Heq; subst. rewrite IH.
+      destruct (decide (src = src /\ d ∈ dsts)) as [[_ Hin]|_]; [contradiction|].
+      destruct (decide (src = src /\ d ∈ d :: dsts)) as [_|Hn]; [reflexivity|].
+      exfalso. apply Hn. split; [reflexivity|left].
+    + rewrite IH. destruct (decide (a = src /\ b ∈ dsts)) as [[-> Hin]|Hn].
+      * destruct (decide (src = src /\ b ∈ d :: dsts)) as [_|Hn2]; [reflexivity|].
+        exfalso. apply Hn2. split; [reflexivity|right; exact Hin].
+      * destruct (decide (a = src /\ b ∈ d :: dsts)) as [[-> Hin]|_]; [|reflexivity].
+        exfalso. apply elem_of_cons in Hin as [->|Hin]; [apply Hne; reflexivity|apply Hn; auto].
+Qed.
+
+Lemma NoDup_others src l : NoDup l -> NoDup (others src l).
+Proof. intros H. unfold others. apply NoDup_filter. exact H. Qed.
+
+Lemma elem_of_others src l c : c ∈ others src l <-> c <> src /\ c ∈ l.
+Proof. unfold others. rewrite elem_of_list_filter. reflexivity. Qed.
+
+Lemma elem_of_clients n p : p ∈ clients n <-> (1 <= p <= N.of_nat n).
+Proof.
+  unfold clients. rewrite elem_of_list_fmap. split.
+  - intros (k & -> & Hk). apply elem_of_seq in Hk. lia.
+  - intros H. exists (N.to_nat p). split; [lia|]. apply elem_of_seq. lia.
+Qed.
+
+Lemma NoDup_clients n : NoDup (clients n).
+Proof. unfold clients. apply NoDup_fmap_2; [intros a b; lia|apply NoDup_seq]. Qed.
+
+Lemma length_clients n : length (clients n) = n.
+Proof. unfold clients. rewrite fmap_length, seq_length. reflexivity. Qed.
+
+(* ================================================================================================
+   Part 1: getters after one step (URL-class asset)
+   ================================================================================================ *)
+
+Lemma getp_insert m c l p x : getp (AState (<[p := x]> m) c l) p = x.
+Proof. unfold getp. simpl. rewrite lookup_insert. reflexivity. Qed.
+Lemma getp_insert_ne m c l c' l' p q x :
+  q <> p -> getp (AState (<[p := x]> m) c l) q = getp (AState m c' l') q.
+Proof. intros H. unfold getp. simpl. rewrite lookup_insert_ne by congruence. reflexivity. Qed.
+Lemma getp_exists s p x : ap s !! p = Some x -> getp s p = x.
+Proof. intros H. unfold getp. rewrite H. reflexivity. Qed.
+Lemma getp_none s p : ap s !! p = None -> getp s p = apeer0.
+Proof. intros H. unfold getp. rewrite H. reflexivity. Qed.
+
+Lemma exists_insert (m : gmap peer apeer) p x y q :
+  m !! p = Some y -> is_Some (<[p := x]> m !! q) <-> is_Some (m !! q).
+Proof.
+  intros Hy. destruct (decide (q = p)) as [->|Hne].
+  - rewrite lookup_insert, Hy. split; eauto.
+  - rewrite lookup_insert_ne by congruence. reflexivity.
+Qed.
+
+(* APublish *)
+Lemma step_publish s p c s' :
+  astep s (APublish p c) = Some s' ->
+  is_Some (ap s !! p) /\ aconn s' = aconn s /\ alinks s' = alinks s /\
+  (forall q, is_Some (ap s' !! q) <-> is_Some (ap s !! q)) /\
+  getp s' p = APeer (Some c) (S (pevents s p)) (ptok s p) (pserved s p) (ppending s p) /\
+  (forall q, q <> p -> getp s' q = getp s q).
+Proof.
+  simpl. destruct (ap s !! p) as [x|] eqn:Hx; [|discriminate]. intros [= <-].
+  unfold pevents, ptok, pserved, ppending. rewrite (getp_exists _ _ _ Hx).
+  split; [eauto|]. split; [reflexivity|]. split; [reflexivity|]. split; [|split].
+  - intros q. simpl. eapply exists_insert; eauto.
+  - apply getp_insert.
+  - intros q Hne. unfold set_peer. destruct s; simpl. apply getp_insert_ne. exact Hne.
+Qed.
+
+(* AReact1 *)
+Lemma react1_cases x :
+  (events x = 0%nat /\ react1_peer x = (x, false)) \/
+  (exists k, events x = S k /\ store x = None /\
+             react1_peer x = (APeer None k (tok x) (served x) (pending x), false)) \/
+  (exists k c, events x = S k /\ store x = Some c /\ tok x = true /\
+               react1_peer x = (APeer (Some c) k false (served x) (pending x), false)) \/
+  (exists k c, events x = S k /\ store x = Some c /\ tok x = false /\
+               react1_peer x = (APeer (Some c) k false (Some c) (pending x), true)).
+Proof.
+  unfold react1_peer. destruct (events x) as [|k]; [left; auto|]. right.
+  destruct (store x) as [c|]; [|left; eauto]. right.
+  destruct (tok x); [left|right]; eauto 10.
+Qed.
+
+Lemma step_react1 s p s' :
+  NoDup (aconn s) ->
+  astep s (AReact1 p) = Some s' ->
+  is_Some (ap s !! p) /\ aconn s' = aconn s /\
+  (forall q, is_Some (ap s' !! q) <-> is_Some (ap s !! q)) /\
+  getp s' p = (react1_peer (getp s p)).1 /\
+  (forall q, q <> p -> getp s' q = getp s q) /\
+  (forall a b, link s' a b =
+     if decide ((react1_peer (getp s p)).2 = true /\ a = p /\ b ∈ dsts_of s p) then link s a b ++ [p] else link s a b).
+Proof.
+  intros Hnd. simpl. unfold areact1. destruct (ap s !! p) as [x|] eqn:Hx; [|discriminate].
+  rewrite (getp_exists _ _ _ Hx). destruct (react1_peer x) as [x' ann] eqn:Hr. intros [= <-].
+  split; [eauto|]. split; [reflexivity|]. split; [|split; [|split]].
+  - intros q. simpl. eapply exists_insert; eauto.
+  - apply getp_insert.
+  - intros q Hne. destruct s; simpl. apply getp_insert_ne. exact Hne.
+  - intros a b. unfold link. simpl. destruct ann.
+    + rewrite lget_send_to.
+      * destruct (decide (a = p /\ b ∈ dsts_of s p)) as [Hy|Hn].
+        -- destruct (decide (true = true /\ a = p /\ b ∈ dsts_of s p)) as [_|Hn]; [reflexivity|tauto].
+        -- destruct (decide (true = true /\ a = p /\ b ∈ dsts_of s p)) as [[_ Hy]|_]; [tauto|reflexivity].
+      * unfold dsts_of. destruct (p =? host)%N; [exact Hnd|apply NoDup_singleton].
+    + destruct (decide (false = true /\ _)) as [[Hf _]|_]; [discriminate|reflexivity].
+Qed.
+
+(* AReact = [events] times AReact1 *)
+Lemma areact_n_run k s p : areact_n k s p = arun s (replicate k (AReact1 p)).
+Proof. revert s. induction k as [|k IH]; intros s; simpl; [reflexivity|]. destruct (areact1 s p); auto. Qed.
+
+Lemma step_react_runs s p s' :
+  astep s (AReact p) = Some s' -> arun s (replicate (pevents s p) (AReact1 p)) = Some s'.
+Proof.
+  simpl. destruct (ap s !! p) as [x|] eqn:Hx; [|discriminate]. unfold pevents. rewrite (getp_exists _ _ _ Hx).
+  rewrite areact_n_run. auto.
+Qed.
+
+Lemma react1s_ind (P : astate -> Prop) p :
+  (forall s s', P s -> astep s (AReact1 p) = Some s' -> P s') ->
+  forall k s s', P s -> arun s (replicate k (AReact1 p)) = Some s' -> P s'.
+Proof.
+  intros Hstep. induction k as [|k IH]; intros s s' HP Hrun; simpl in Hrun.
+  - inversion Hrun; subst. exact HP.
+  - destruct (areact1 s p) as [s1|] eqn:H1; [|discriminate]. eapply IH; [|exact Hrun]. eapply Hstep; eauto.
+Qed.
+
+(* ADeliver *)
+Definition request_peer (x : apeer) (o : peer) : apeer :=
+  match served x with
+  | Some _ => x
+  | None => APeer (store x) (events x) (tok x) (served x) (pending x ++ [o])
+  end.
+
+Lemma step_deliver s src dst s' :
+  NoDup (aconn s) ->
+  astep s (ADeliver src dst) = Some s' ->
+  exists o rest, link s src dst = o :: rest /\ is_Some (ap s !! dst) /\ aconn s' = aconn s /\
+  (forall q, is_Some (ap s' !! q) <-> is_Some (ap s !! q)) /\
+  getp s' dst = request_peer (getp s dst) o /\
+  (forall q, q <> dst -> getp s' q = getp s q) /\
+  (forall a b, link s' a b =
+     (if decide ((a, b) = (src, dst)) then rest else link s a b) ++
+     (if decide (dst = host /\ a = host /\ b ∈ others src (aconn s)) then [o] else [])).
+Proof.
+  intros Hnd. simpl. destruct (link s src dst) as [|o rest] eqn:Hl; [discriminate|].
+  destruct (ap s !! dst) as [x|] eqn:Hx; [|discriminate]. intros [= <-]. exists o, rest.
+  rewrite (getp_exists _ _ _ Hx).
+  split; [reflexivity|]. split; [eauto|]. split; [reflexivity|]. split; [|split; [|split]].
+  - intros q. simpl. eapply exists_insert; eauto.
+  - apply getp_insert.
+  - intros q Hne. destruct s; simpl. apply getp_insert_ne. exact Hne.
+  - intros a b. unfold link. simpl. destruct (dst =? host)%N eqn:Hd.
+    + apply N.eqb_eq in Hd. subst dst. rewrite lget_send_to by (apply NoDup_others; exact Hnd).
+      rewrite lget_insert.
+      destruct (decide (a = host /\ b ∈ others src (aconn s))) as [[-> Hin]|Hn].
+      * destruct (decide (host = host /\ host = host /\ b ∈ others src (aconn s))) as [_|Hn]; [reflexivity|tauto].
+      * destruct (decide (host = host /\ a = host /\ b ∈ others src (aconn s))) as [[_ Hy]|_]; [tauto|].
+        rewrite app_nil_r. reflexivity.
+    + apply N.eqb_neq in Hd. rewrite lget_insert.
+      destruct (decide (dst = host /\ _)) as [[Hy _]|_]; [contradiction|]. rewrite app_nil_r. reflexivity.
+Qed.
+
+(* ADownload *)
+Definition download_peer (x : apeer) (got : option content) : apeer :=
+  match got with
+  | None => APeer (store x) (events x) (tok x) (served x) (tail (pending x))
+  | Some c => APeer (Some c) (S (events x)) true (served x) (tail (pending x))
+  end.
+
+Lemma step_download s p s' :
+  astep s (ADownload p) = Some s' ->
+  exists o rest, ppending s p = o :: rest /\ is_Some (ap s !! p) /\ aconn s' = aconn s /\ alinks s' = alinks s /\
+  (forall q, is_Some (ap s' !! q) <-> is_Some (ap s !! q)) /\
+  getp s' p = download_peer (getp s p) (pserved s o) /\
+  (forall q, q <> p -> getp s' q = getp s q).
+Proof.
+  simpl. destruct (ap s !! p) as [x|] eqn:Hx; [|discriminate].
+  unfold ppending. rewrite (getp_exists _ _ _ Hx).
+  destruct (pending x) as [|o rest] eqn:Hp; [discriminate|]. intros Hstep. exists o, rest.
+  split; [reflexivity|]. split; [eauto|].
+  assert (Hs' : s' = set_peer s p (download_peer x (pserved s o))).
+  { unfold download_peer. rewrite Hp. simpl. destruct (pserved s o); congruence. }
+  subst s'. split; [reflexivity|]. split; [reflexivity|]. split; [|split].
+  - intros q. simpl. eapply exists_insert; eauto.
+  - apply getp_insert.
+  - intros q Hne. unfold set_peer. destruct s; simpl. apply getp_insert_ne. exact Hne.
+Qed.
+
+(* AJoin *)
+Definition snapshot (s : astate) : list peer := match pstore s host with Some _ => [host] | None => [] end.
+
+Lemma step_join s c pre s' :
+  astep s (AJoin c pre) = Some s' ->
+  c <> host /\ c ∉ aconn s /\ ap s !! c = None /\ aconn s' = aconn s ++ [c] /\
+  (forall q, is_Some (ap s' !! q) <-> is_Some (ap s !! q) \/ q = c \/ q = host) /\
+  getp s' c = APeer pre 0 false pre [] /\
+  getp s' host = serve_store (getp s host) /\
+  (forall q, q <> c -> q <> host -> getp s' q = getp s q) /\
+  (forall a b, link s' a b = if decide ((a, b) = (host, c)) then link s host c ++ snapshot s else link s a b).
+Proof.
+  simpl. destruct (c =? host)%N eqn:Hc; [discriminate|]. apply N.eqb_neq in Hc.
+  destruct (bool_decide (c ∈ aconn s)) eqn:Hin; [discriminate|]. apply bool_decide_eq_false in Hin.
+  unfold pexists. destruct (bool_decide (is_Some (ap s !! c))) eqn:Hex; [discriminate|].
+  apply bool_decide_eq_false in Hex. simpl. intros [= <-].
+  assert (Hnone : ap s !! c = None) by (destruct (ap s !! c); [exfalso; eauto|reflexivity]).
+  split; [exact Hc|]. split; [exact Hin|]. split; [exact Hnone|]. split; [reflexivity|].
+  split; [|split; [|split; [|split]]].
+  - intros q. simpl. destruct (decide (q = c)) as [->|Hne].
+    + rewrite lookup_insert. split; eauto.
+    + rewrite lookup_insert_ne by congruence. destruct (decide (q = host)) as [->|Hnh].
+      * rewrite lookup_insert. split; eauto.
+      * rewrite lookup_insert_ne by congruence. split; [auto|]. intros [H|[H|H]]; [exact H|contradiction|contradiction].
+  - apply getp_insert.
+  - unfold getp at 1. simpl. rewrite lookup_insert_ne by congruence. rewrite lookup_insert. reflexivity.
+  - intros q Hqc Hqh. unfold getp. simpl. rewrite !lookup_insert_ne by congruence. reflexivity.
+  - intros a b. unfold link, snapshot, pstore. simpl. destruct (store (getp s host)) as [v|].
+    + apply lget_push_link.
+    + destruct (decide _) as [Heq|_]; [|reflexivity]. inversion Heq; subst. rewrite app_nil_r. reflexivity.
+Qed.
+
+(* ================================================================================================
+   Part 2: well-formedness
+   ================================================================================================ *)
+
+Lemma wf_nodup s : awf s -> NoDup (aconn s).
+Proof. intros (H & _). exact H. Qed.
+Lemma wf_host s : awf s -> host ∉ aconn s.
+Proof. intros (_ & H & _). exact H. Qed.
+Lemma wf_exists s p : awf s -> is_Some (ap s !! p) <-> peers s p.
+Proof. intros (_ & _ & H & _). apply H. Qed.
+Lemma wf_link s a b : awf s -> link s a b <> [] -> (a = host /\ b ∈ aconn s) \/ (b = host /\ a ∈ aconn s).
+Proof. intros (_ & _ & _ & H). apply H. Qed.
+Lemma wf_link_nil s a b : awf s -> a ∉ aconn s -> b ∉ aconn s -> link s a b = [].
+Proof.
+  intros Hwf Ha Hb. destruct (link s a b) eqn:Hl; [reflexivity|].
+  destruct (wf_link s a b Hwf) as [[_ H]|[_ H]]; [rewrite Hl; discriminate|contradiction|contradiction].
+Qed.
+Lemma wf_link_hh s : awf s -> link s host host = [].
+Proof. intros Hwf. apply wf_link_nil; [exact Hwf| |]; apply wf_host, Hwf. Qed.
+
+Lemma step_wf_plain1 s e s' :
+  match e with AReact _ => False | _ => True end ->
+  awf s -> astep s e = Some s' -> awf s'.
+Proof.
+  intros He Hwf Hstep. pose proof Hwf as (Hnd & Hh & Hex & Hlk). destruct e as [p v|p|p|src dst|p|c pre]; [|contradiction| | | |].
+  - apply step_publish in Hstep as (_ & Hc & Hl & He' & _).
+    unfold awf, link, peers. rewrite Hc, Hl. repeat split; try assumption.
+    + intros H. apply Hex, He', H. + intros H. apply He', Hex, H.
+  - apply step_react1 in Hstep as (Hp & Hc & He' & _ & _ & Hl); [|exact Hnd].
+    unfold awf, peers. rewrite Hc. repeat split; try assumption.
+    + intros H. apply Hex, He', H. + intros H. apply He', Hex, H.
+    + intros a b. rewrite Hl. destruct (decide (_ /\ a = p /\ b ∈ dsts_of s p)) as [(_ & -> & Hin)|_]; [|apply Hlk].
+      intros _. unfold dsts_of in Hin. destruct (p =? host)%N eqn:Hph.
+      * apply N.eqb_eq in Hph. left. auto.
+      * apply N.eqb_neq in Hph. apply elem_of_list_singleton in Hin. right. split; [exact Hin|].
+        apply Hex in Hp as [Hp|Hp]; [contradiction|exact Hp].
+  - apply step_deliver in Hstep as (o & rest & Hl0 & Hd & Hc & He' & _ & _ & Hl); [|exact Hnd].
+    unfold awf, peers. rewrite Hc. repeat split; try assumption.
+    + intros H. apply Hex, He', H. + intros H. apply He', Hex, H.
+    + intros a b. rewrite Hl.
+      destruct (decide (dst = host /\ a = host /\ b ∈ others src (aconn s))) as [(_ & -> & Hin)|_].
+      * intros _. left. split; [reflexivity|]. apply elem_of_others in Hin. tauto.
+      * rewrite app_nil_r. destruct (decide ((a, b) = (src, dst))) as [Heq|_]; [|apply Hlk].
+        inversion Heq; subst. intros _. apply Hlk. rewrite Hl0. discriminate.
+  - apply step_download in Hstep as (o & rest & _ & _ & Hc & Hl & He' & _).
+    unfold awf, link, peers. rewrite Hc, Hl. repeat split; try assumption.
+    + intros H. apply Hex, He', H. + intros H. apply He', Hex, H.
+  - apply step_join in Hstep as (Hc0 & Hcn & Hnone & Hc & He' & _ & _ & _ & Hl).
+    unfold awf, peers. rewrite Hc. split; [|split; [|split]].
+    + apply NoDup_app. split; [exact Hnd|]. split; [|apply NoDup_singleton].
+      intros x Hx Hx'. apply elem_of_list_singleton in Hx'. subst. contradiction.
+    + intros H. apply elem_of_app in H as [H|H]; [contradiction|]. apply elem_of_list_singleton in H. congruence.
+    + intros q. rewrite He', Hex. unfold peers. rewrite elem_of_app, elem_of_list_singleton. tauto.
+    + intros a b. rewrite Hl. rewrite elem_of_app, elem_of_app, !elem_of_list_singleton.
+      destruct (decide ((a, b) = (host, c))) as [Heq|_].
+      * inversion Heq; subst. intros _. left. auto.
+      * intros H. apply Hlk in H. tauto.
+Qed.
+
+Lemma step_wf s e s' : awf s -> astep s e = Some s' -> awf s'.
+Proof.
+  intros Hwf Hstep. destruct e as [p v|p|p|src dst|p|c pre]; try (eapply step_wf_plain1; [|exact Hwf|exact Hstep]; exact I).
+  apply step_react_runs in Hstep. eapply (react1s_ind awf p); [|exact Hwf|exact Hstep].
+  intros s1 s2 H1 H2. eapply step_wf_plain1; [|exact H1|exact H2]. exact I.
+Qed.
+
+Lemma run_wf s tr s' : awf s -> arun s tr = Some s' -> awf s'.
+Proof.
+  revert s. induction tr as [|e tr IH]; intros s Hwf Hrun; simpl in Hrun.
+  - congruence.
+  - destruct (astep s e) as [s1|] eqn:Hs; [|discriminate]. eapply IH; [|exact Hrun]. eapply step_wf; eauto.
+Qed.
+
+Lemma ainit_getp n p : getp (ainit n) p = apeer0.
+Proof.
+  unfold getp. destruct (ap (ainit n) !! p) as [x|] eqn:Hx; [|reflexivity]. simpl.
+  unfold ainit in Hx; cbn [ap] in Hx. apply elem_of_list_to_map_2 in Hx. apply elem_of_list_fmap in Hx as (q & Heq & _). congruence.
+Qed.
+
+Lemma ainit_link n a b : link (ainit n) a b = [].
+Proof. reflexivity. Qed.
+
+Lemma ainit_wf n : awf (ainit n).
+Proof.
+  unfold awf. split; [apply NoDup_clients|]. split; [|split].
+  - simpl. rewrite elem_of_clients. unfold host. lia.
+  - intros p. unfold ainit, peers; cbn [ap aconn].
+    set (l := (fun p => (p, apeer0)) <$> host :: clients n).
+    assert (Hfst : l.*1 = host :: clients n).
+    { unfold l. rewrite <- list_fmap_compose. simpl. f_equal. induction (clients n); simpl; congruence. }
+    split.
+    + intros [x Hx]. apply elem_of_list_to_map_2 in Hx. apply (elem_of_list_fmap_1 fst) in Hx.
+      rewrite Hfst in Hx. simpl in Hx. apply elem_of_cons in Hx. exact Hx.
+    + intros Hp. destruct (list_to_map l !! p) eqn:Hx; [eauto|].
+      apply not_elem_of_list_to_map in Hx. rewrite Hfst in Hx. exfalso. apply Hx. apply elem_of_cons. exact Hp.
+  - intros a b H. exfalso. apply H. reflexivity.
+Qed.
+
+(* quiescence through getters *)
+Lemma quiescent_link s a b : aquiescent s -> link s a b = [].
+Proof.
+  intros [H _]. unfold link, lget. destruct (alinks s !! (a, b)) as [l|] eqn:Hl; [|reflexivity]. simpl. eapply H. exact Hl.
+Qed.
+Lemma quiescent_peer s p : aquiescent s -> pevents s p = 0%nat /\ ptok s p = false /\ ppending s p = [].
+Proof.
+  intros [_ H]. unfold pevents, ptok, ppending, getp. destruct (ap s !! p) as [x|] eqn:Hx; simpl; [|auto].
+  apply (H p x Hx).
+Qed.
+Lemma quiescent_intro s :
+  (forall a b, link s a b = []) -> (forall p, pevents s p = 0%nat /\ ptok s p = false /\ ppending s p = []) -> aquiescent s.
+Proof.
+  intros Hl Hp. split.
+  - intros [a b] l Hx. specialize (Hl a b). unfold link, lget in Hl. rewrite Hx in Hl. exact Hl.
+  - intros p x Hx. specialize (Hp p). unfold pevents, ptok, ppending, getp in Hp. rewrite Hx in Hp. exact Hp.
+Qed.
+Lemma ainit_quiescent n : aquiescent (ainit n).
+Proof.
+  apply quiescent_intro; [intros; apply ainit_link|]. intros p. unfold pevents, ptok, ppending. rewrite ainit_getp. auto.
+Qed.
+
+(* case analysis on the first [decide] of the goal (or else of a hypothesis) *)
+Tactic Notation "cdec" "as" simple_intropattern(pat) :=
+  match goal with
+  | |- context [decide ?P] => destruct (decide P) as pat
+  | H : context [decide ?P] |- _ => destruct (decide P) as pat
+  end.
+
+(* ================================================================================================
+   Part 3: the single-publisher invariant
+   [Inv w s]: w is the only peer that ever published.  Nothing travels towards w, only w uses an uplink,
+   every announcement names w as owner, no other peer serves the id, every unread event of another
+   peer is covered by its token, w's cache is its store unless an event of w is still unread, and every
+   other peer holds what w serves unless an announcement is still on its way to it.
+   Preserved by every event except: a publication by another peer, a join when w is a client or of a
+   client that already holds the id, and a download of the class S7.
+   ================================================================================================ *)
+
+Definition notified (w : peer) (s : astate) (q : peer) : Prop :=
+  ppending s q <> [] \/ link s host q <> [] \/ link s w host <> [].
+
+Record Inv (w : peer) (s : astate) : Prop := {
+  inv_tok : ptok s w = false;
+  inv_pend : ppending s w = [];
+  inv_in : forall a, link s a w = [];
+  inv_up : forall c, c <> w -> link s c host = [];
+  inv_recv : forall q, q <> w -> pserved s q = None /\
+               (pevents s q = 0%nat /\ ptok s q = false \/ pevents s q = 1%nat /\ ptok s q = true);
+  inv_ev_store : forall q, pevents s q <> 0%nat -> pstore s q <> None;
+  inv_owner_l : forall a b o, o ∈ link s a b -> o = w;
+  inv_owner_p : forall q o, o ∈ ppending s q -> o = w;
+  inv_served : pserved s w = pstore s w \/ pevents s w <> 0%nat;
+  inv_live_l : forall a b, link s a b <> [] -> pserved s w <> None;
+  inv_live_p : forall q, ppending s q <> [] -> pserved s w <> None;
+  inv_store : forall q, peers s q -> q <> w ->
+               pstore s q = pserved s w \/ notified w s q \/ pevents s w <> 0%nat
+}.
+
+Definition ev_ok (w : peer) (e : aevent) : Prop :=
+  match e with
+  | APublish q _ => q = w
+  | AJoin _ pre => w = host /\ pre = None
+  | _ => True
+  end.
+
+Definition store_after (w : peer) (s : astate) (e : aevent) : option content :=
+  match e with APublish _ c => Some c | _ => pstore s w end.
+
+Lemma inv_ext w s s' :
+  (forall q, getp s' q = getp s q) -> (forall a b, link s' a b = link s a b) -> aconn s' = aconn s ->
+  Inv w s -> Inv w s'.
+Proof.
+  intros Hg Hl Hc HI. destruct HI.
+  constructor; unfold notified, peers, pstore, pevents, ptok, pserved, ppending in *;
+    intros; rewrite ?Hg, ?Hl, ?Hc in *; eauto.
+Qed.
+
+Lemma app_not_nil_l {A} (l1 l2 : list A) : l1 <> [] -> l1 ++ l2 <> [].
+Proof. destruct l1; [congruence|discriminate]. Qed.
+Lemma app_not_nil_r {A} (l1 l2 : list A) : l2 <> [] -> l1 ++ l2 <> [].
+Proof. destruct l1, l2; try congruence; discriminate. Qed.
+
+Lemma not_in_dsts s p : awf s -> p ∉ dsts_of s p.
+Proof.
+  intros Hwf. unfold dsts_of. destruct (p =? host)%N eqn:E.
+  - apply N.eqb_eq in E. subst. apply wf_host, Hwf.
+  - apply N.eqb_neq in E. intros H. apply elem_of_list_singleton in H. contradiction.
+Qed.
+
+Lemma inv_step1 w s e s' :
+  match e with AReact _ => False | _ => True end ->
+  awf s -> Inv w s -> ev_ok w e -> bad_S7 s e = false -> astep s e = Some s' ->
+  Inv w s' /\ pstore s' w = store_after w s e.
+Proof.
+  intros Hnb Hwf HI Hok Hbad Hstep. pose proof (wf_nodup s Hwf) as Hnd.
+  destruct e as [p v|p|p|src dst|p|c pre]; [|contradiction| | | |].
+  - (* APublish *)
+    simpl in Hok. subst p.
+    apply step_publish in Hstep as (_ & Hc & Hl & _ & Hp & Hq).
+    assert (Hlk : forall a b, link s' a b = link s a b) by (intros; unfold link; rewrite Hl; reflexivity).
+    destruct HI. split; [|unfold pstore; rewrite Hp; reflexivity].
+    constructor; unfold notified, peers; intros; rewrite ?Hlk, ?Hc in *; eauto.
+    + unfold ptok. rewrite Hp. exact inv_tok0.
+    + unfold ppending. rewrite Hp. exact inv_pend0.
+    + unfold pserved, pevents, ptok. rewrite Hq by assumption. apply inv_recv0. assumption.
+    + destruct (decide (q = w)) as [->|Hne]; [unfold pstore; rewrite Hp; discriminate|].
+      unfold pstore, pevents in *. rewrite Hq in * by assumption. auto.
+    + destruct (decide (q = w)) as [->|Hne].
+      * unfold ppending in H. rewrite Hp in H. simpl in H. eapply inv_owner_p0; exact H.
+      * unfold ppending in H. rewrite Hq in H by assumption. eapply inv_owner_p0; exact H.
+    + right. unfold pevents. rewrite Hp. discriminate.
+    + unfold pserved. rewrite Hp. simpl. eapply inv_live_l0; eauto.
+    + unfold pserved. rewrite Hp. simpl. destruct (decide (q = w)) as [->|Hne].
+      * unfold ppending in H. rewrite Hp in H. simpl in H. contradiction.
+      * unfold ppending in H. rewrite Hq in H by assumption. eapply inv_live_p0; eauto.
+    + right. right. unfold pevents. rewrite Hp. discriminate.
+  - (* AReact1 *)
+    apply step_react1 in Hstep as (Hex & Hc & _ & Hp & Hq & Hl); [|exact Hnd].
+    assert (Hst : pstore s' w = pstore s w).
+    { unfold pstore. destruct (decide (w = p)) as [->|Hne]; [|rewrite Hq by assumption; reflexivity].
+      rewrite Hp. destruct (react1_cases (getp s p)) as [[_ E]|[(k & _ & E0 & E)|[(k & c & _ & E0 & _ & E)|(k & c & _ & E0 & _ & E)]]];
+        rewrite E; simpl; congruence. }
+    split; [|exact Hst].
+    destruct (react1_cases (getp s p)) as [[E0 E]|[(k & E0 & E1 & E)|[(k & c & E0 & E1 & E2 & E)|(k & c & E0 & E1 & E2 & E)]]].
+    + (* nothing unread *)
+      eapply inv_ext; [| |exact Hc|exact HI].
+      * intros q. destruct (decide (q = p)) as [->|Hne]; [rewrite Hp, E; reflexivity|apply Hq; exact Hne].
+      * intros a b. rewrite Hl, E. cbn [snd]. cdec as [[Hf _]|_]; [discriminate|reflexivity].
+    + exfalso. eapply (inv_ev_store _ _ HI p); [unfold pevents; rewrite E0; discriminate|exact E1].
+    + (* swallowed *)
+      assert (Hpw : p <> w). { intros ->. pose proof (inv_tok _ _ HI) as Ht. unfold ptok in Ht. congruence. }
+      assert (Hk : k = 0%nat).
+      { destruct (inv_recv _ _ HI p Hpw) as [_ [[H0 _]|[H1 _]]]; unfold pevents in *; [congruence|lia]. }
+      subst k. rewrite E in Hp, Hl. cbn [fst snd] in Hp, Hl.
+      assert (Hlk : forall a b, link s' a b = link s a b).
+      { intros a b. rewrite Hl. cdec as [[Hf _]|_]; [discriminate|reflexivity]. }
+      assert (Hserved : pserved s p = None) by apply (inv_recv _ _ HI p Hpw).
+      destruct HI. constructor; unfold notified, peers; intros; rewrite ?Hlk, ?Hc in *; eauto.
+      * unfold ptok. rewrite Hq by congruence. exact inv_tok0.
+      * unfold ppending. rewrite Hq by congruence. exact inv_pend0.
+      * destruct (decide (q = p)) as [->|Hne].
+        -- unfold pserved, pevents, ptok. rewrite Hp. simpl. split; [exact Hserved|left; auto].
+        -- unfold pserved, pevents, ptok. rewrite Hq by assumption. apply inv_recv0. assumption.
+      * destruct (decide (q = p)) as [->|Hne]; [unfold pevents in H; rewrite Hp in H; simpl in H; congruence|].
+        unfold pstore, pevents in *. rewrite Hq in * by assumption. auto.
+      * destruct (decide (q = p)) as [->|Hne]; unfold ppending in H.
+        -- rewrite Hp in H. simpl in H. eapply inv_owner_p0; exact H.
+        -- rewrite Hq in H by assumption. eapply inv_owner_p0; exact H.
+      * unfold pserved, pstore, pevents. rewrite Hq by congruence. exact inv_served0.
+      * unfold pserved. rewrite Hq by congruence. eapply inv_live_l0; eauto.
+      * unfold pserved. rewrite Hq by congruence. destruct (decide (q = p)) as [->|Hne]; unfold ppending in H.
+        -- rewrite Hp in H. simpl in H. eapply inv_live_p0; exact H.
+        -- rewrite Hq in H by assumption. eapply inv_live_p0; exact H.
+      * unfold pserved, pevents. rewrite (Hq w) by congruence.
+        destruct (decide (q = p)) as [->|Hne].
+        -- unfold pstore, ppending. rewrite Hp. simpl. rewrite <- E1. apply inv_store0; assumption.
+        -- unfold pstore, ppending. rewrite Hq by assumption. apply inv_store0; assumption.
+    + (* announced *)
+      destruct (decide (p = w)) as [->|Hpw].
+      2:{ exfalso. destruct (inv_recv _ _ HI p Hpw) as [_ [[H0 _]|[_ H1]]]; unfold pevents, ptok in *; congruence. }
+      rewrite E in Hp, Hl. cbn [fst snd] in Hp, Hl.
+      assert (Hlk : forall a b, link s' a b = if decide (a = w /\ b ∈ dsts_of s w) then link s a b ++ [w] else link s a b).
+      { intros a b. rewrite Hl. destruct (decide (a = w /\ b ∈ dsts_of s w)) as [Hy|Hn].
+        - destruct (decide (true = true /\ _)) as [_|Hn]; [reflexivity|tauto].
+        - destruct (decide (true = true /\ _)) as [[_ Hy]|_]; [tauto|reflexivity]. }
+      assert (Hsv : pserved s' w = Some c) by (unfold pserved; rewrite Hp; reflexivity).
+      destruct HI. constructor; unfold notified, peers; intros; rewrite ?Hc in *.
+      * unfold ptok. rewrite Hp. reflexivity.
+      * unfold ppending. rewrite Hp. exact inv_pend0.
+      * rewrite Hlk. cdec as [[_ Hin]|_]; [exfalso; eapply not_in_dsts; eauto|apply inv_in0].
+      * rewrite Hlk. cdec as [[Heq _]|_]; [contradiction|apply inv_up0; assumption].
+      * unfold pserved, pevents, ptok. rewrite Hq by assumption. apply inv_recv0. assumption.
+      * destruct (decide (q = w)) as [->|Hne]; [unfold pstore; rewrite Hp; discriminate|].
+        unfold pstore, pevents in *. rewrite Hq in * by assumption. auto.
+      * rewrite Hlk in H. cdec as [_|_]; [|eapply inv_owner_l0; exact H].
+        apply elem_of_app in H as [H|H]; [eapply inv_owner_l0; exact H|]. apply elem_of_list_singleton in H. exact H.
+      * destruct (decide (q = w)) as [->|Hne]; unfold ppending in H.
+        -- rewrite Hp in H. simpl in H. eapply inv_owner_p0; exact H.
+        -- rewrite Hq in H by assumption. eapply inv_owner_p0; exact H.
+      * left. rewrite Hsv. unfold pstore. rewrite Hp. reflexivity.
+      * rewrite Hsv. discriminate.
+      * rewrite Hsv. discriminate.
+      * right. left. right. destruct (decide (w = host)) as [->|Hwh].
+        -- left. rewrite Hlk. cdec as [_|Hn]; [apply app_not_nil_r; discriminate|].
+           exfalso. apply Hn. split; [reflexivity|]. unfold dsts_of. change (host =? host)%N with true. cbv iota.
+           destruct H as [H|H]; [contradiction|exact H].
+        -- right. rewrite Hlk. cdec as [_|Hn]; [apply app_not_nil_r; discriminate|].
+           exfalso. apply Hn. split; [reflexivity|]. unfold dsts_of.
+           destruct (w =? host)%N eqn:E'; [apply N.eqb_eq in E'; contradiction|]. apply elem_of_list_singleton. reflexivity.
+  - (* ADeliver *)
+    apply step_deliver in Hstep as (o & rest & Hl0 & Hd & Hc & _ & Hp & Hq & Hl); [|exact Hnd].
+    assert (Hne0 : link s src dst <> []) by (rewrite Hl0; discriminate).
+    assert (Hdw : dst <> w). { intros ->. rewrite (inv_in _ _ HI) in Hne0. congruence. }
+    assert (How : o = w). { eapply (inv_owner_l _ _ HI src dst). rewrite Hl0. left. }
+    subst o.
+    assert (Hshape : (src = host /\ dst ∈ aconn s /\ dst <> host) \/ (dst = host /\ src = w /\ w <> host /\ w ∈ aconn s)).
+    { destruct (wf_link s src dst Hwf Hne0) as [[-> Hin]|[-> Hin]].
+      - left. split; [reflexivity|]. split; [exact Hin|]. intros ->. apply (wf_host s Hwf Hin).
+      - right. split; [reflexivity|]. destruct (decide (src = w)) as [->|Hn].
+        + split; [reflexivity|]. split; [|exact Hin]. intros ->. apply (wf_host s Hwf Hin).
+        + rewrite (inv_up _ _ HI src Hn) in Hne0. congruence. }
+    assert (Hsd : pserved s dst = None) by apply (inv_recv _ _ HI dst Hdw).
+    assert (Hp' : getp s' dst = APeer (pstore s dst) (pevents s dst) (ptok s dst) None (ppending s dst ++ [w])).
+    { rewrite Hp. unfold request_peer. unfold pserved in Hsd. rewrite Hsd. reflexivity. }
+    assert (Hsvw : pserved s' w = pserved s w) by (unfold pserved; rewrite Hq by congruence; reflexivity).
+    assert (Hlive : pserved s w <> None) by (eapply (inv_live_l _ _ HI); exact Hne0).
+    split; [|unfold store_after, pstore; rewrite Hq by congruence; reflexivity].
+    destruct HI. constructor; unfold notified, peers; intros; rewrite ?Hc in *.
+    + unfold ptok. rewrite Hq by congruence. exact inv_tok0.
+    + unfold ppending. rewrite Hq by congruence. exact inv_pend0.
+    + rewrite Hl. destruct (decide ((a, w) = (src, dst))) as [Heq|_]; [inversion Heq; congruence|].
+      rewrite inv_in0. cbn [app]. cdec as [(Hdh & _ & Hin)|_]; [|reflexivity].
+      apply elem_of_others in Hin as [Hn _]. destruct Hshape as [(_ & _ & ?)|(? & ? & _)]; congruence.
+    + rewrite Hl. destruct (decide ((c, host) = (src, dst))) as [Heq|_].
+      * inversion Heq; subst. destruct Hshape as [(_ & _ & ?)|(_ & ? & _)]; congruence.
+      * rewrite inv_up0 by assumption. cbn [app]. cdec as [(_ & _ & Hin)|_]; [|reflexivity].
+        apply elem_of_others in Hin as [_ Hin]. exfalso. apply (wf_host s Hwf Hin).
+    + destruct (decide (q = dst)) as [->|Hne].
+      * unfold pserved, pevents, ptok. rewrite Hp'. simpl. split; [reflexivity|apply inv_recv0; assumption].
+      * unfold pserved, pevents, ptok. rewrite Hq by assumption. apply inv_recv0. assumption.
+    + destruct (decide (q = dst)) as [->|Hne].
+      * unfold pstore, pevents in *. rewrite Hp' in *. simpl in *. apply inv_ev_store0. exact H.
+      * unfold pstore, pevents in *. rewrite Hq in * by assumption. auto.
+    + rewrite Hl in H. apply elem_of_app in H as [H|H].
+      * destruct (decide ((a, b) = (src, dst))) as [_|_]; [|eapply inv_owner_l0; exact H].
+        eapply (inv_owner_l0 src dst). rewrite Hl0. right. exact H.
+      * cdec as [?|?]; [apply elem_of_list_singleton in H; exact H|inversion H].
+    + destruct (decide (q = dst)) as [->|Hne]; unfold ppending in H.
+      * rewrite Hp' in H. simpl in H. apply elem_of_app in H as [H|H]; [eapply inv_owner_p0; exact H|].
+        apply elem_of_list_singleton in H. exact H.
+      * rewrite Hq in H by assumption. eapply inv_owner_p0; exact H.
+    + unfold pserved, pstore, pevents. rewrite Hq by congruence. exact inv_served0.
+    + rewrite Hsvw. exact Hlive.
+    + rewrite Hsvw. exact Hlive.
+    + rewrite Hsvw. unfold pevents. rewrite (Hq w) by congruence. fold (pevents s w).
+      destruct (decide (q = dst)) as [->|Hne].
+      * right. left. left. unfold ppending. rewrite Hp'. simpl. apply app_not_nil_r. discriminate.
+      * unfold pstore, ppending. rewrite Hq by assumption. fold (pstore s q). fold (ppending s q).
+        destruct (inv_store0 q H H0) as [Hs|[[Hn|[Hn|Hn]]|He]]; [left; exact Hs| | | |right; right; exact He];
+          right; left.
+        -- left. exact Hn.
+        -- right. left. rewrite Hl. apply app_not_nil_l.
+           destruct (decide ((host, q) = (src, dst))) as [Heq|_]; [inversion Heq; congruence|exact Hn].
+        -- destruct (decide ((w, host) = (src, dst))) as [Heq|Hneq].
+           ++ inversion Heq; subst src dst. right. left. rewrite Hl. apply app_not_nil_r.
+              cdec as [_|Hnn]; [discriminate|]. exfalso. apply Hnn. split; [reflexivity|]. split; [reflexivity|].
+              apply elem_of_others. split; [assumption|]. destruct H as [H|H]; [contradiction|exact H].
+           ++ right. right. rewrite Hl. apply app_not_nil_l.
+              destruct (decide ((w, host) = (src, dst))) as [?|_]; [contradiction|exact Hn].
+  - (* ADownload *)
+    apply step_download in Hstep as (o & rest & Hp0 & Hex & Hc & Hl & _ & Hp & Hq).
+    assert (Hlk : forall a b, link s' a b = link s a b) by (intros; unfold link; rewrite Hl; reflexivity).
+    assert (Hpw : p <> w). { intros ->. rewrite (inv_pend _ _ HI) in Hp0. discriminate. }
+    assert (How : o = w). { eapply (inv_owner_p _ _ HI p). rewrite Hp0. left. }
+    subst o.
+    assert (Hlive : pserved s w <> None). { eapply (inv_live_p _ _ HI p). rewrite Hp0. discriminate. }
+    destruct (pserved s w) as [c|] eqn:Hsw; [|congruence].
+    simpl in Hbad. rewrite Hp0, Hsw in Hbad. apply negb_false_iff, Nat.eqb_eq in Hbad.
+    assert (Htk : ptok s p = false).
+    { destruct (inv_recv _ _ HI p Hpw) as [_ [[_ Ht]|[He _]]]; [exact Ht|lia]. }
+    assert (Hp' : getp s' p = APeer (Some c) 1 true (pserved s p) rest).
+    { rewrite Hp. unfold download_peer. unfold pevents, ppending in *. rewrite Hbad, Hp0. reflexivity. }
+    assert (Hsvw : pserved s' w = Some c) by (unfold pserved in *; rewrite Hq by congruence; exact Hsw).
+    split; [|unfold store_after, pstore; rewrite Hq by congruence; reflexivity].
+    destruct HI. constructor; unfold notified, peers; intros; rewrite ?Hlk, ?Hc in *; eauto.
+    + unfold ptok. rewrite Hq by congruence. exact inv_tok0.
+    + unfold ppending. rewrite Hq by congruence. exact inv_pend0.
+    + destruct (decide (q = p)) as [->|Hne].
+      * unfold pserved, pevents, ptok. rewrite Hp'. simpl. split; [apply inv_recv0; assumption|right; auto].
+      * unfold pserved, pevents, ptok. rewrite Hq by assumption. apply inv_recv0. assumption.
+    + destruct (decide (q = p)) as [->|Hne]; [unfold pstore; rewrite Hp'; discriminate|].
+      unfold pstore, pevents in *. rewrite Hq in * by assumption. auto.
+    + destruct (decide (q = p)) as [->|Hne]; unfold ppending in H.
+      * rewrite Hp' in H. simpl in H. eapply (inv_owner_p0 p). rewrite Hp0. right. exact H.
+      * rewrite Hq in H by assumption. eapply inv_owner_p0; exact H.
+    + unfold pserved, pstore, pevents. rewrite Hq by congruence. fold (pserved s w). rewrite Hsw.
+      unfold pserved, pstore, pevents in inv_served0. rewrite <- Hsw. exact inv_served0.
+    + rewrite Hsvw. discriminate.
+    + rewrite Hsvw. discriminate.
+    + rewrite Hsvw. unfold pevents. rewrite (Hq w) by congruence. fold (pevents s w).
+      destruct (decide (q = p)) as [->|Hne].
+      * left. unfold pstore. rewrite Hp'. reflexivity.
+      * unfold pstore, ppending. rewrite Hq by assumption. fold (pstore s q). fold (ppending s q).
+        rewrite <- Hsw. apply inv_store0; assumption.
+  - (* AJoin *)
+    destruct Hok as [-> ->].
+    apply step_join in Hstep as (Hch & Hcn & Hnone & Hc & _ & Hpc & Hph & Hq & Hl).
+    assert (Hsv' : pserved s' host = match pstore s host with Some v => Some v | None => pserved s host end).
+    { unfold pserved, pstore. rewrite Hph. reflexivity. }
+    assert (Hsnap : pstore s host = None -> snapshot s = []) by (intros H; unfold snapshot; rewrite H; reflexivity).
+    assert (Hkeep : pevents s host = 0%nat -> pserved s' host = pserved s host).
+    { intros He. rewrite Hsv'. destruct (inv_served _ _ HI) as [Hs|Hs]; [|contradiction].
+      rewrite Hs. destruct (pstore s host); reflexivity. }
+    split; [|unfold store_after, pstore; rewrite Hph; reflexivity].
+    destruct HI. constructor; unfold notified, peers; intros.
+    + unfold ptok. rewrite Hph. exact inv_tok0.
+    + unfold ppending. rewrite Hph. exact inv_pend0.
+    + rewrite Hl. cdec as [Heq|_]; [inversion Heq; congruence|apply inv_in0].
+    + rewrite Hl. cdec as [Heq|_]; [inversion Heq; congruence|apply inv_up0; assumption].
+    + destruct (decide (q = c)) as [->|Hne].
+      * unfold pserved, pevents, ptok. rewrite Hpc. simpl. auto.
+      * unfold pserved, pevents, ptok. rewrite Hq by assumption. apply inv_recv0. assumption.
+    + destruct (decide (q = c)) as [->|Hne]; [unfold pevents in H; rewrite Hpc in H; simpl in H; congruence|].
+      destruct (decide (q = host)) as [->|Hnh].
+      * unfold pstore, pevents in *. rewrite Hph in *. simpl in *. auto.
+      * unfold pstore, pevents in *. rewrite Hq in * by assumption. auto.
+    + rewrite Hl in H. cdec as [_|_]; [|eapply inv_owner_l0; exact H].
+      apply elem_of_app in H as [H|H]; [eapply inv_owner_l0; exact H|].
+      unfold snapshot in H. destruct (pstore s host); [apply elem_of_list_singleton in H; exact H|inversion H].
+    + destruct (decide (q = c)) as [->|Hne]; [unfold ppending in H; rewrite Hpc in H; inversion H|].
+      destruct (decide (q = host)) as [->|Hnh]; unfold ppending in H.
+      * rewrite Hph in H. simpl in H. eapply inv_owner_p0; exact H.
+      * rewrite Hq in H by assumption. eapply inv_owner_p0; exact H.
+    + rewrite Hsv'. unfold pstore at 2, pevents. rewrite Hph. simpl. fold (pstore s host). fold (pevents s host).
+      destruct (pstore s host) eqn:Hs; [left; reflexivity|exact inv_served0].
+    + rewrite Hsv'. destruct (pstore s host) eqn:Hs; [discriminate|]. rewrite Hl, (Hsnap eq_refl) in H.
+      cdec as [_|_]; [rewrite app_nil_r in H|]; eapply inv_live_l0; exact H.
+    + rewrite Hsv'. destruct (pstore s host) eqn:Hs; [discriminate|].
+      destruct (decide (q = c)) as [->|Hne]; [unfold ppending in H; rewrite Hpc in H; contradiction|].
+      destruct (decide (q = host)) as [->|Hnh]; unfold ppending in H.
+      * rewrite Hph in H. simpl in H. eapply inv_live_p0; exact H.
+      * rewrite Hq in H by assumption. eapply inv_live_p0; exact H.
+    + unfold pevents. rewrite Hph. simpl. fold (pevents s host).
+      destruct (Nat.eq_dec (pevents s host) 0%nat) as [He|He]; [|right; right; exact He].
+      rewrite (Hkeep He). destruct (decide (q = c)) as [->|Hne].
+      * unfold pstore at 1. rewrite Hpc. simpl. destruct (pstore s host) eqn:Hs.
+        -- right. left. right. left. rewrite Hl. cdec as [_|?]; [|congruence].
+           apply app_not_nil_r. unfold snapshot. rewrite Hs. discriminate.
+        -- left. destruct (inv_served0) as [H1|H1]; [|contradiction]. rewrite H1. reflexivity.
+      * assert (Hpq : peers s q).
+        { destruct H as [H|H]; [left; exact H|]. rewrite Hc in H. apply elem_of_app in H as [H|H]; [right; exact H|].
+          apply elem_of_list_singleton in H. contradiction. }
+        unfold pstore at 1, ppending. rewrite Hq by assumption. fold (pstore s q). fold (ppending s q).
+        destruct (inv_store0 q Hpq H0) as [Hs|[[Hn|[Hn|Hn]]|He']]; [left; exact Hs| | | |contradiction]; right; left.
+        -- left. exact Hn.
+        -- right. left. rewrite Hl. cdec as [Heq|_]; [inversion Heq; congruence|exact Hn].
+        -- right. right. rewrite Hl. cdec as [Heq|_]; [inversion Heq; congruence|exact Hn].
+Qed.
+
+Lemma inv_step w s e s' :
+  awf s -> Inv w s -> ev_ok w e -> bad_S7 s e = false -> astep s e = Some s' ->
+  Inv w s' /\ pstore s' w = store_after w s e.
+Proof.
+  intros Hwf HI Hok Hbad Hstep.
+  destruct e as [p v|p|p|src dst|p|c pre]; try (eapply inv_step1; eauto; exact I).
+  apply step_react_runs in Hstep.
+  pose (P := fun s1 => awf s1 /\ Inv w s1 /\ pstore s1 w = pstore s w).
+  assert (HP : P s') ; [|destruct HP as (_ & H1 & H2); split; [exact H1|exact H2]].
+  eapply (react1s_ind P p); [|split; [exact Hwf|split; [exact HI|reflexivity]]|exact Hstep].
+  intros s1 s2 (Hw1 & HI1 & Hs1) H12. split; [eapply step_wf; eauto|].
+  destruct (inv_step1 w s1 (AReact1 p) s2 I Hw1 HI1 I eq_refl H12) as [HI2 Hs2].
+  split; [exact HI2|]. rewrite Hs2. exact Hs1.
+Qed.
+
+Definition lastd (d : option content) (l : list content) : option content := foldl (fun _ v => Some v) d l.
+Lemma lastd_cons d v l : lastd d (v :: l) = lastd (Some v) l.
+Proof. reflexivity. Qed.
+Lemma lastd_last d l : lastd d l = match last l with Some v => Some v | None => d end.
+Proof.
+  revert d. induction l as [|v l IH]; intros d; [reflexivity|]. rewrite lastd_cons, IH.
+  destruct l as [|v' l']; [reflexivity|]. change (last (v :: v' :: l')) with (last (v' :: l')).
+  destruct (last (v' :: l')) eqn:E; [reflexivity|]. exfalso. clear -E.
+  revert v' E. induction l' as [|x l' IH]; intros v' E; [discriminate|]. apply (IH x). exact E.
+Qed.
+Lemma lastd_None_last l : lastd None l = last l.
+Proof. rewrite lastd_last. destruct (last l); reflexivity. Qed.
+
+Lemma published_cons e tr :
+  published (e :: tr) = match e with APublish _ c => c :: published tr | _ => published tr end.
+Proof. destruct e; reflexivity. Qed.
+
+Lemma store_after_lastd w s e tr :
+  lastd (store_after w s e) (published tr) = lastd (pstore s w) (published (e :: tr)).
+Proof. rewrite published_cons. destruct e; reflexivity. Qed.
+
+Lemma inv_run w tr : forall s s',
+  awf s -> Inv w s -> Forall (ev_ok w) tr -> scan bad_S7 s tr = false -> arun s tr = Some s' ->
+  awf s' /\ Inv w s' /\ pstore s' w = lastd (pstore s w) (published tr).
+Proof.
+  induction tr as [|e tr IH]; intros s s' Hwf HI Hok Hbad Hrun.
+  - simpl in Hrun. inversion Hrun; subst. auto.
+  - cbn [arun] in Hrun. cbn [scan] in Hbad. destruct (astep s e) as [s1|] eqn:Hstep; [|discriminate].
+    apply orb_false_iff in Hbad as [Hb1 Hb2]. apply Forall_cons in Hok as [He Hok].
+    destruct (inv_step w s e s1 Hwf HI He Hb1 Hstep) as [HI1 Hs1].
+    destruct (IH s1 s' (step_wf _ _ _ Hwf Hstep) HI1 Hok Hb2 Hrun) as (Hwf' & HI' & Hs').
+    split; [exact Hwf'|]. split; [exact HI'|]. rewrite Hs', Hs1. apply store_after_lastd.
+Qed.
+
+Lemma inv_init w n : Inv w (ainit n).
+Proof.
+  constructor; unfold notified, pstore, pevents, ptok, pserved, ppending; intros; rewrite ?ainit_getp, ?ainit_link in *; simpl; auto.
+  - inversion H.
+  - simpl in H. inversion H.
+Qed.
+
+Lemma ev_ok_of w tr : only_publisher w tr -> joins_ok w tr -> Forall (ev_ok w) tr.
+Proof.
+  unfold only_publisher, joins_ok, fresh_joins, no_joins.
+  induction tr as [|e tr IH]; intros Hp Hj; [constructor|].
+  destruct e as [p v|p|p|src dst|p|c pre]; simpl in Hp, Hj; try (constructor; [exact I|apply IH; assumption]).
+  - apply Forall_cons in Hp as [-> Hp]. constructor; [reflexivity|apply IH; assumption].
+  - destruct (decide (w = host)) as [->|Hne]; [|discriminate].
+    apply Forall_cons in Hj as [Hpre Hj]. simpl in Hpre. constructor; [split; auto|].
+    apply IH; [exact Hp|]. destruct (decide (host = host)); [exact Hj|congruence].
+Qed.
+
+Lemma inv_quiescent_agree w s : Inv w s -> aquiescent s -> forall q, peers s q -> pstore s q = pstore s w.
+Proof.
+  intros HI Hq q Hpq. destruct (decide (q = w)) as [->|Hne]; [reflexivity|].
+  destruct (quiescent_peer s w Hq) as (Hew & _ & _).
+  destruct (inv_served _ _ HI) as [Hs|Hs]; [|contradiction].
+  destruct (inv_store _ _ HI q Hpq Hne) as [H|[[H|[H|H]]|H]].
+  - congruence.
+  - destruct (quiescent_peer s q Hq) as (_ & _ & Hp). contradiction.
+  - rewrite (quiescent_link s host q Hq) in H. contradiction.
+  - rewrite (quiescent_link s w host Hq) in H. contradiction.
+  - contradiction.
+Qed.
+
+(* ---------- C06, the general form: one publisher, bursts and overwrites included, every interleaving;
+   outside the class S7 every quiescent state shows the last published content everywhere ---------- *)
+Theorem C06_single_publisher_outside_S7 n w tr s' :
+  arun (ainit n) tr = Some s' -> only_publisher w tr -> joins_ok w tr ->
+  known_S7 (ainit n) tr = false -> aquiescent s' ->
+  forall q, peers s' q -> pstore s' q = last (published tr).
+Proof.
+  intros Hrun Hop Hj Hk Hq q Hpq.
+  destruct (inv_run w tr (ainit n) s' (ainit_wf n) (inv_init w n) (ev_ok_of w tr Hop Hj) Hk Hrun) as (_ & HI & Hs).
+  rewrite (inv_quiescent_agree w s' HI Hq q Hpq), Hs.
+  unfold pstore at 1. rewrite ainit_getp. apply lastd_None_last.
+Qed.
+Print Assumptions C06_single_publisher_outside_S7.
+
+(* ... and in such runs no peer but the publisher ever serves the id, so S12 cannot occur either *)
+Theorem single_publisher_outside_S7_never_serves n w tr s' :
+  arun (ainit n) tr = Some s' -> only_publisher w tr -> joins_ok w tr ->
+  known_S7 (ainit n) tr = false ->
+  forall q, q <> w -> pserved s' q = None.
+Proof.
+  intros Hrun Hop Hj Hk q Hne.
+  destruct (inv_run w tr (ainit n) s' (ainit_wf n) (inv_init w n) (ev_ok_of w tr Hop Hj) Hk Hrun) as (_ & HI & _).
+  apply (inv_recv _ _ HI q Hne).
+Qed.
+
+(* ================================================================================================
+   Part 4: drain separation.  [Cnt w s]: at most one notification is on its way to each receiver
+   (counting the publisher's unread event, the uplink message, the relayed message, the pending download
+   and the receiver's own unread event).  Established by a publication or a join in a quiescent state,
+   preserved by everything else; it excludes S7.
+   ================================================================================================ *)
+
+Definition K (w : peer) (s : astate) : nat := (pevents s w + length (link s w host))%nat.
+Definition Cnt (w : peer) (s : astate) : Prop :=
+  forall q, peers s q -> q <> w ->
+    (K w s + length (link s host q) + length (ppending s q) + pevents s q <= 1)%nat.
+
+Lemma cnt_ext w s s' :
+  (forall q, getp s' q = getp s q) -> (forall a b, link s' a b = link s a b) -> aconn s' = aconn s ->
+  Cnt w s -> Cnt w s'.
+Proof.
+  intros Hg Hl Hc HC q Hp Hne. unfold K, peers, pevents, ppending in *. rewrite ?Hg, ?Hl, ?Hc in *. apply HC; assumption.
+Qed.
+
+Lemma deliver_shape w s src dst o rest :
+  awf s -> Inv w s -> link s src dst = o :: rest ->
+  o = w /\ dst <> w /\ pserved s dst = None /\
+  ((src = host /\ dst ∈ aconn s /\ dst <> host) \/ (dst = host /\ src = w /\ w <> host /\ w ∈ aconn s)).
+Proof.
+  intros Hwf HI Hl0.
+  assert (Hne0 : link s src dst <> []) by (rewrite Hl0; discriminate).
+  assert (Hdw : dst <> w). { intros ->. rewrite (inv_in _ _ HI) in Hne0. congruence. }
+  split; [eapply (inv_owner_l _ _ HI src dst); rewrite Hl0; left|]. split; [exact Hdw|].
+  split; [apply (inv_recv _ _ HI dst Hdw)|].
+  destruct (wf_link s src dst Hwf Hne0) as [[-> Hin]|[-> Hin]].
+  - left. split; [reflexivity|]. split; [exact Hin|]. intros ->. apply (wf_host s Hwf Hin).
+  - right. split; [reflexivity|]. destruct (decide (src = w)) as [->|Hn].
+    + split; [reflexivity|]. split; [|exact Hin]. intros ->. apply (wf_host s Hwf Hin).
+    + rewrite (inv_up _ _ HI src Hn) in Hne0. congruence.
+Qed.
+
+Lemma cnt_step1 w s e s' :
+  match e with AReact1 _ | ADeliver _ _ | ADownload _ => True | _ => False end ->
+  awf s -> Inv w s -> Cnt w s -> astep s e = Some s' -> Cnt w s' /\ bad_S7 s e = false.
+Proof.
+  intros He Hwf HI HC Hstep. pose proof (wf_nodup s Hwf) as Hnd. pose proof (wf_link_hh s Hwf) as Hhh.
+  destruct e as [p v|p|p|src dst|p|c pre]; try contradiction.
+  - (* AReact1 *)
+    split; [|reflexivity].
+    apply step_react1 in Hstep as (Hex & Hc & _ & Hp & Hq & Hl); [|exact Hnd].
+    destruct (react1_cases (getp s p)) as [[E0 E]|[(k & E0 & E1 & E)|[(k & c & E0 & E1 & E2 & E)|(k & c & E0 & E1 & E2 & E)]]].
+    + eapply cnt_ext; [| |exact Hc|exact HC].
+      * intros q. destruct (decide (q = p)) as [->|Hne]; [rewrite Hp, E; reflexivity|apply Hq; exact Hne].
+      * intros a b. rewrite Hl, E. cbn [snd]. cdec as [[Hf _]|_]; [discriminate|reflexivity].
+    + exfalso. eapply (inv_ev_store _ _ HI p); [unfold pevents; rewrite E0; discriminate|exact E1].
+    + assert (Hpw : p <> w). { intros ->. pose proof (inv_tok _ _ HI) as Ht. unfold ptok in Ht. congruence. }
+      rewrite E in Hp, Hl. cbn [fst snd] in Hp, Hl.
+      assert (Hlk : forall a b, link s' a b = link s a b).
+      { intros a b. rewrite Hl. cdec as [[Hf _]|_]; [discriminate|reflexivity]. }
+      intros q Hpq Hne. unfold peers in Hpq. rewrite Hc in Hpq. specialize (HC q Hpq Hne).
+      unfold K, pevents, ppending in *. rewrite !Hlk, (Hq w) by congruence.
+      destruct (decide (q = p)) as [->|Hnq]; [rewrite Hp; simpl; lia|rewrite Hq by assumption; exact HC].
+    + destruct (decide (p = w)) as [->|Hpw].
+      2:{ exfalso. destruct (inv_recv _ _ HI p Hpw) as [_ [[H0 _]|[_ H1]]]; unfold pevents, ptok in *; congruence. }
+      rewrite E in Hp, Hl. cbn [fst snd] in Hp, Hl.
+      assert (Hlk : forall a b, link s' a b = if decide (a = w /\ b ∈ dsts_of s w) then link s a b ++ [w] else link s a b).
+      { intros a b. rewrite Hl. destruct (decide (a = w /\ b ∈ dsts_of s w)) as [Hy|Hn].
+        - destruct (decide (true = true /\ _)) as [_|Hn]; [reflexivity|tauto].
+        - destruct (decide (true = true /\ _)) as [[_ Hy]|_]; [tauto|reflexivity]. }
+      intros q Hpq Hne. unfold peers in Hpq. rewrite Hc in Hpq. specialize (HC q Hpq Hne).
+      unfold K, pevents, ppending in *. rewrite (Hq q) by assumption. rewrite Hp. cbn [events].
+      rewrite E0 in HC. rewrite !Hlk. unfold dsts_of. destruct (decide (w = host)) as [->|Hwh].
+      * change (host =? host)%N with true. cbv iota.
+        destruct (decide (host = host /\ host ∈ aconn s)) as [[_ Hin]|_]; [exfalso; apply (wf_host s Hwf Hin)|].
+        destruct (decide (host = host /\ q ∈ aconn s)) as [_|Hn].
+        -- rewrite app_length. simpl. lia.
+        -- exfalso. apply Hn. split; [reflexivity|]. destruct Hpq as [?|?]; [contradiction|assumption].
+      * destruct (w =? host)%N eqn:E'; [apply N.eqb_eq in E'; contradiction|].
+        destruct (decide (w = w /\ host ∈ [host])) as [_|Hn]; [|exfalso; apply Hn; split; [reflexivity|apply elem_of_list_singleton; reflexivity]].
+        destruct (decide (host = w /\ _)) as [[Hf _]|_]; [congruence|].
+        rewrite app_length. simpl. lia.
+  - (* ADeliver *)
+    split; [|reflexivity].
+    apply step_deliver in Hstep as (o & rest & Hl0 & Hd & Hc & _ & Hp & Hq & Hl); [|exact Hnd].
+    destruct (deliver_shape w s src dst o rest Hwf HI Hl0) as (-> & Hdw & Hsd & Hshape).
+    assert (Hp' : ppending s' dst = ppending s dst ++ [w] /\ pevents s' dst = pevents s dst).
+    { unfold ppending, pevents. rewrite Hp. unfold request_peer. unfold pserved in Hsd. rewrite Hsd. split; reflexivity. }
+    destruct Hp' as [Hpp Hpe].
+    intros q Hpq Hne. unfold peers in Hpq. rewrite Hc in Hpq. pose proof (HC q Hpq Hne) as HCq.
+    assert (Hew : pevents s' w = pevents s w) by (unfold pevents; rewrite Hq by congruence; reflexivity).
+    unfold K in *. rewrite Hew. rewrite !Hl.
+    destruct Hshape as [(-> & Hin & Hdh)|(-> & -> & Hwh & Hin)].
+    + (* host -> client dst *)
+      destruct (decide ((w, host) = (host, dst))) as [Heq|_]; [inversion Heq; congruence|].
+      destruct (decide (dst = host /\ _)) as [[? _]|_]; [contradiction|].
+      destruct (decide (dst = host /\ _)) as [[? _]|_]; [contradiction|]. rewrite !app_nil_r.
+      destruct (decide (q = dst)) as [->|Hnq].
+      * destruct (decide ((host, dst) = (host, dst))) as [_|?]; [|congruence].
+        rewrite Hpp, Hpe, app_length. rewrite Hl0 in HCq. simpl in *. lia.
+      * destruct (decide ((host, q) = (host, dst))) as [Heq|_]; [inversion Heq; congruence|].
+        unfold ppending, pevents in *. rewrite (Hq q) by assumption. exact HCq.
+    + (* publisher -> host *)
+      destruct (decide ((w, host) = (w, host))) as [_|?]; [|congruence].
+      destruct (decide (host = host /\ w = host /\ _)) as [(_ & ? & _)|_]; [contradiction|]. rewrite app_nil_r.
+      rewrite Hl0 in HCq. cbn [length] in HCq.
+      destruct (decide (q = host)) as [->|Hnq].
+      * destruct (decide ((host, host) = (w, host))) as [Heq|_]; [inversion Heq; congruence|].
+        destruct (decide (host = host /\ host = host /\ host ∈ others w (aconn s))) as [(_ & _ & Hin')|_].
+        { apply elem_of_others in Hin' as [_ Hin']. exfalso. apply (wf_host s Hwf Hin'). }
+        rewrite app_nil_r, Hpp, Hpe, app_length. simpl. lia.
+      * destruct (decide ((host, q) = (w, host))) as [Heq|_]; [inversion Heq; congruence|].
+        destruct (decide (host = host /\ host = host /\ q ∈ others w (aconn s))) as [_|Hn].
+        -- unfold ppending, pevents in *. rewrite (Hq q) by assumption. rewrite app_length. simpl. lia.
+        -- exfalso. apply Hn. split; [reflexivity|]. split; [reflexivity|]. apply elem_of_others. split; [exact Hne|].
+           destruct Hpq as [?|?]; [contradiction|assumption].
+  - (* ADownload *)
+    pose proof Hstep as Hstep0.
+    apply step_download in Hstep as (o & rest & Hp0 & Hex & Hc & Hl & _ & Hp & Hq).
+    assert (Hlk : forall a b, link s' a b = link s a b) by (intros; unfold link; rewrite Hl; reflexivity).
+    assert (Hpw : p <> w). { intros ->. rewrite (inv_pend _ _ HI) in Hp0. discriminate. }
+    assert (Hpp : peers s p) by (apply (wf_exists s p Hwf); exact Hex).
+    pose proof (HC p Hpp Hpw) as HCp. rewrite Hp0 in HCp. cbn [length] in HCp.
+    assert (He0 : pevents s p = 0%nat) by lia.
+    split.
+    + intros q Hpq Hne. unfold peers in Hpq. rewrite Hc in Hpq. specialize (HC q Hpq Hne).
+      unfold K, pevents, ppending in *. rewrite !Hlk, (Hq w) by congruence.
+      destruct (decide (q = p)) as [->|Hnq]; [|rewrite Hq by assumption; exact HC].
+      rewrite Hp. unfold download_peer. rewrite Hp0 in *. destruct (pserved s o); simpl in *; lia.
+    + simpl. rewrite Hp0. destruct (pserved s o); [|reflexivity]. rewrite He0. reflexivity.
+Qed.
+
+Lemma cnt_quiescent w s : aquiescent s -> Cnt w s.
+Proof.
+  intros Hq q _ _. unfold K. rewrite !(quiescent_link s _ _ Hq).
+  destruct (quiescent_peer s w Hq) as (-> & _ & _). destruct (quiescent_peer s q Hq) as (-> & _ & ->). simpl. lia.
+Qed.
+
+Lemma cnt_publish w s c s' : aquiescent s -> astep s (APublish w c) = Some s' -> Cnt w s'.
+Proof.
+  intros Hqs Hstep. apply step_publish in Hstep as (_ & Hc & Hl & _ & Hp & Hq).
+  intros q _ Hne. unfold K, link, pevents, ppending. rewrite Hl, Hp, (Hq q) by assumption. cbn [events].
+  fold (link s w host). fold (link s host q). rewrite !(quiescent_link s _ _ Hqs).
+  destruct (quiescent_peer s w Hqs) as (-> & _ & _). destruct (quiescent_peer s q Hqs) as (He & _ & Hpe).
+  unfold pevents, ppending in *. rewrite He, Hpe. simpl. lia.
+Qed.
+
+Lemma cnt_join s c s' : awf s -> aquiescent s -> astep s (AJoin c None) = Some s' -> Cnt host s'.
+Proof.
+  intros Hwf Hqs Hstep. apply step_join in Hstep as (Hch & Hcn & Hnone & Hc & _ & Hpc & Hph & Hq & Hl).
+  intros q _ Hne. unfold K. rewrite !Hl.
+  destruct (decide ((host, host) = (host, c))) as [Heq|_]; [inversion Heq; congruence|].
+  rewrite !(quiescent_link s _ _ Hqs).
+  assert (Heh : pevents s' host = 0%nat).
+  { unfold pevents. rewrite Hph. simpl. apply (quiescent_peer s host Hqs). }
+  rewrite Heh. destruct (decide (q = c)) as [->|Hnq].
+  - destruct (decide ((host, c) = (host, c))) as [_|?]; [|congruence].
+    unfold ppending, pevents. rewrite Hpc. simpl. unfold snapshot. destruct (pstore s host); simpl; lia.
+  - destruct (decide ((host, q) = (host, c))) as [Heq|_]; [inversion Heq; congruence|].
+    unfold ppending, pevents. rewrite Hq by assumption.
+    destruct (quiescent_peer s q Hqs) as (He & _ & Hpe). unfold pevents, ppending in *. rewrite He, Hpe. simpl. lia.
+Qed.
+
+Lemma ds_run w tr : forall s s',
+  awf s -> Inv w s -> Cnt w s -> Forall (ev_ok w) tr -> ops_at_quiescence s tr = true -> arun s tr = Some s' ->
+  awf s' /\ Inv w s' /\ Cnt w s' /\ scan bad_S7 s tr = false /\ pstore s' w = lastd (pstore s w) (published tr).
+Proof.
+  induction tr as [|e tr IH]; intros s s' Hwf HI HC Hok Hops Hrun.
+  - simpl in Hrun. inversion Hrun; subst. auto.
+  - cbn [arun] in Hrun. cbn [ops_at_quiescence] in Hops. cbn [scan].
+    destruct (astep s e) as [s1|] eqn:Hstep; [|discriminate].
+    apply andb_true_iff in Hops as [Hop1 Hops]. apply Forall_cons in Hok as [He Hok].
+    assert (H1 : Inv w s1 /\ Cnt w s1 /\ bad_S7 s e = false /\ pstore s1 w = store_after w s e).
+    { destruct e as [p v|p|p|src dst|p|c pre].
+      - simpl in He. subst p. simpl in Hop1. apply bool_decide_eq_true in Hop1.
+        destruct (inv_step1 w s (APublish w v) s1 I Hwf HI eq_refl eq_refl Hstep) as [HI1 Hs1].
+        split; [exact HI1|]. split; [eapply cnt_publish; eauto|]. split; [reflexivity|exact Hs1].
+      - pose proof Hstep as Hstep0. apply step_react_runs in Hstep.
+        pose (P := fun s1 => awf s1 /\ Inv w s1 /\ Cnt w s1 /\ pstore s1 w = pstore s w).
+        assert (HP : P s1); [|destruct HP as (_ & HI1 & HC1 & Hs1); auto].
+        eapply (react1s_ind P p); [|split; [exact Hwf|split; [exact HI|split; [exact HC|reflexivity]]]|exact Hstep].
+        intros s2 s3 (Hw2 & HI2 & HC2 & Hs2) H23. split; [eapply step_wf; eauto|].
+        destruct (inv_step1 w s2 (AReact1 p) s3 I Hw2 HI2 I eq_refl H23) as [HI3 Hs3].
+        destruct (cnt_step1 w s2 (AReact1 p) s3 I Hw2 HI2 HC2 H23) as [HC3 _].
+        split; [exact HI3|]. split; [exact HC3|]. rewrite Hs3. exact Hs2.
+      - destruct (cnt_step1 w s (AReact1 p) s1 I Hwf HI HC Hstep) as [HC1 Hb].
+        destruct (inv_step1 w s (AReact1 p) s1 I Hwf HI I Hb Hstep) as [HI1 Hs1]. auto.
+      - destruct (cnt_step1 w s (ADeliver src dst) s1 I Hwf HI HC Hstep) as [HC1 Hb].
+        destruct (inv_step1 w s (ADeliver src dst) s1 I Hwf HI I Hb Hstep) as [HI1 Hs1]. auto.
+      - destruct (cnt_step1 w s (ADownload p) s1 I Hwf HI HC Hstep) as [HC1 Hb].
+        destruct (inv_step1 w s (ADownload p) s1 I Hwf HI I Hb Hstep) as [HI1 Hs1]. auto.
+      - pose proof He as [-> ->]. simpl in Hop1. apply bool_decide_eq_true in Hop1.
+        destruct (inv_step1 host s (AJoin c None) s1 I Hwf HI He eq_refl Hstep) as [HI1 Hs1].
+        split; [exact HI1|]. split; [eapply cnt_join; eauto|]. split; [reflexivity|exact Hs1]. }
+    destruct H1 as (HI1 & HC1 & Hb & Hs1).
+    destruct (IH s1 s' (step_wf _ _ _ Hwf Hstep) HI1 HC1 Hok Hops Hrun) as (Hwf' & HI' & HC' & Hsc & Hs').
+    split; [exact Hwf'|]. split; [exact HI'|]. split; [exact HC'|]. split; [rewrite Hb, Hsc; reflexivity|].
+    rewrite Hs', Hs1. apply store_after_lastd.
+Qed.
+
+(* ================================================================================================
+   Part 5: C06 for what holds
+   ================================================================================================ *)
+
+(* Overwrites, each published in a quiescent state by the same peer (joins of fresh clients, also in
+   quiescent states, when that peer is the host): every quiescent state shows the last content on every
+   peer.  The receivers swallowed their event with the token, so they never served, so request()
+   proceeds at the next round. *)
+Theorem C06_drain_separated_overwrites_replicate n w tr s' :
+  arun (ainit n) tr = Some s' -> only_publisher w tr -> joins_ok w tr ->
+  ops_at_quiescence (ainit n) tr = true -> aquiescent s' ->
+  forall q, peers s' q -> pstore s' q = last (published tr).
+Proof.
+  intros Hrun Hop Hj Hops Hq q Hpq.
+  destruct (ds_run w tr (ainit n) s' (ainit_wf n) (inv_init w n) (cnt_quiescent w _ (ainit_quiescent n))
+              (ev_ok_of w tr Hop Hj) Hops Hrun) as (_ & HI & _ & _ & Hs).
+  rewrite (inv_quiescent_agree w s' HI Hq q Hpq), Hs.
+  unfold pstore at 1. rewrite ainit_getp. apply lastd_None_last.
+Qed.
+Print Assumptions C06_drain_separated_overwrites_replicate.
+
+(* drain separation excludes S7 (and S12: nobody but the publisher serves) *)
+Theorem drain_separated_never_S7 n w tr s' :
+  arun (ainit n) tr = Some s' -> only_publisher w tr -> joins_ok w tr ->
+  ops_at_quiescence (ainit n) tr = true ->
+  known_S7 (ainit n) tr = false /\ forall q, q <> w -> pserved s' q = None.
+Proof.
+  intros Hrun Hop Hj Hops.
+  destruct (ds_run w tr (ainit n) s' (ainit_wf n) (inv_init w n) (cnt_quiescent w _ (ainit_quiescent n))
+              (ev_ok_of w tr Hop Hj) Hops Hrun) as (_ & HI & _ & Hsc & _).
+  split; [exact Hsc|]. intros q Hne. apply (inv_recv _ _ HI q Hne).
+Qed.
+
+Lemma plain_trace rest :
+  Forall plain rest -> published rest = [] /\ publishers rest = [] /\ joins rest = [] /\
+  forall s, ops_at_quiescence s rest = true.
+Proof.
+  induction 1 as [|e rest He _ (IH1 & IH2 & IH3 & IH4)]; [repeat split|].
+  destruct e; simpl in He; try contradiction; (split; [exact IH1|]; split; [exact IH2|]; split; [exact IH3|]);
+    intros s; cbn [ops_at_quiescence]; (destruct (astep s _); [|reflexivity]); rewrite IH4; reflexivity.
+Qed.
+
+(* The first publication: a single APublish (by the host or by a client: client -> host -> the other
+   clients), then any interleaving of react runs, deliveries and downloads of any number of clients:
+   every reachable quiescent state holds the content on every peer. *)
+Theorem C06_first_publication_replicates n p c rest s' :
+  Forall plain rest -> arun (ainit n) (APublish p c :: rest) = Some s' -> aquiescent s' ->
+  forall q, peers s' q -> pstore s' q = Some c.
+Proof.
+  intros Hpl Hrun Hq q Hpq. destruct (plain_trace rest Hpl) as (H1 & H2 & H3 & H4).
+  rewrite (C06_drain_separated_overwrites_replicate n p (APublish p c :: rest) s' Hrun); try assumption.
+  - rewrite published_cons, H1. reflexivity.
+  - unfold only_publisher. simpl. rewrite H2. repeat constructor.
+  - unfold joins_ok, fresh_joins, no_joins. simpl. rewrite H3. destruct (decide (p = host)); [constructor|reflexivity].
+  - cbn [ops_at_quiescence]. cbn [arun] in Hrun. destruct (astep (ainit n) (APublish p c)) as [s1|]; [|discriminate].
+    rewrite H4. simpl. rewrite andb_true_r. apply bool_decide_eq_true. apply ainit_quiescent.
+Qed.
+Print Assumptions C06_first_publication_replicates.
+
+Example C06_first_publication_nonvacuous :
+  (* a client publishes: client -> host -> other client *)
+  (let rest := [AReact 1; ADeliver 1 0; ADownload 0; ADeliver 0 2; AReact 0; ADownload 2; AReact 2] in
+   Forall plain rest /\ (aquiescentb <$> arun (ainit 2) (APublish 1 10 :: rest)) = Some true) /\
+  (* the host publishes *)
+  (let rest := [AReact1 0; ADeliver 0 2; ADeliver 0 1; ADownload 1; ADownload 2; AReact 1; AReact 2] in
+   Forall plain rest /\ (aquiescentb <$> arun (ainit 2) (APublish 0 10 :: rest)) = Some true).
+Proof. split; (split; [repeat constructor|vm_compute; reflexivity]). Qed.
+
+Example C06_drain_separated_nonvacuous :
+  let tr := [APublish 0 10; AReact 0; ADeliver 0 1; ADownload 1; AReact 1;
+             AJoin 2 None; ADeliver 0 2; ADownload 2; AReact 2;
+             APublish 0 20; AReact 0; ADeliver 0 2; ADeliver 0 1; ADownload 1; ADownload 2; AReact 1; AReact 2] in
+  only_publisher 0 tr /\ joins_ok 0 tr /\ ops_at_quiescence (ainit 1) tr = true /\
+  (fun s => aview s [0; 1; 2]) <$> arun (ainit 1) tr = Some ([Some 20; Some 20; Some 20], true).
+Proof.
+  split; [only_pub|]. split; [unfold joins_ok, fresh_joins; vm_compute; repeat constructor|]. split; vm_compute; reflexivity.
+Qed.
+
+(* bursts are fine as long as no receiver applies two downloads between two of its react runs *)
+Example C06_outside_S7_nonvacuous :
+  let tr := [APublish 1 10; AReact 1; APublish 1 20; ADeliver 1 0; APublish 1 30; AReact 1; ADownload 0; AReact1 0;
+             ADeliver 0 2; ADeliver 1 0; ADeliver 1 0; ADownload 0; AReact 0; ADownload 0; AReact 0;
+             ADeliver 0 2; ADownload 2; AReact 2; ADeliver 0 2; ADownload 2; AReact 2; ADownload 2; AReact 2] in
+  only_publisher 1 tr /\ joins_ok 1 tr /\ known_S7 (ainit 2) tr = false /\ ops_at_quiescence (ainit 2) tr = false /\
+  (fun s => aview s [0; 1; 2]) <$> arun (ainit 2) tr = Some ([Some 30; Some 30; Some 30], true).
+Proof.
+  split; [only_pub|]. split; [reflexivity|]. split; [vm_compute; reflexivity|]. split; vm_compute; reflexivity.
+Qed.
+
+(* ---------- stability ------------------------------------------------------------------------------ *)
+
+(* from a quiescent state nothing but a publication or a join changes anything *)
+Theorem quiescent_is_stable s :
+  aquiescent s ->
+  (forall p s', astep s (AReact p) = Some s' -> s' = s) /\
+  (forall p s', astep s (AReact1 p) = Some s' -> s' = s) /\
+  (forall a b, astep s (ADeliver a b) = None) /\
+  (forall p, astep s (ADownload p) = None).
+Proof.
+  intros Hq. split; [|split; [|split]].
+  - intros p s'. simpl. destruct (ap s !! p) as [x|] eqn:Hx; [|discriminate].
+    destruct Hq as [_ Hq]. destruct (Hq p x Hx) as (-> & _ & _). simpl. congruence.
+  - intros p s'. simpl. unfold areact1. destruct (ap s !! p) as [x|] eqn:Hx; [|discriminate].
+    destruct Hq as [_ Hq]. destruct (Hq p x Hx) as (He & _ & _). unfold react1_peer. rewrite He.
+    intros [= <-]. rewrite insert_id by exact Hx. destruct s; reflexivity.
+  - intros a b. simpl. rewrite (quiescent_link s a b Hq). reflexivity.
+  - intros p. simpl. destruct (ap s !! p) as [x|] eqn:Hx; [|reflexivity].
+    destruct Hq as [_ Hq]. destruct (Hq p x Hx) as (_ & _ & ->). reflexivity.
+Qed.
+Print Assumptions quiescent_is_stable.
+
+(* On reachable states a token never outlives its event (and an unread event implies a stored content):
+   "links empty, no pending downloads, no unread events" IS quiescence. *)
+Definition TokEv (s : astate) : Prop :=
+  forall p, (ptok s p = true -> pevents s p <> 0%nat) /\ (pevents s p <> 0%nat -> pstore s p <> None).
+
+Lemma tokev_step1 s e s' :
+  match e with AReact _ => False | _ => True end -> NoDup (aconn s) -> TokEv s -> astep s e = Some s' -> TokEv s'.
+Proof.
+  intros He Hnd HT Hstep. destruct e as [p v|p|p|src dst|p|c pre]; [|contradiction| | | |]; intros q.
+  - apply step_publish in Hstep as (_ & _ & _ & _ & Hp & Hq).
+    destruct (decide (q = p)) as [->|Hne]; unfold ptok, pevents, pstore.
+    + rewrite Hp. simpl. split; intros; discriminate.
+    + rewrite Hq by assumption. apply HT.
+  - apply step_react1 in Hstep as (_ & _ & _ & Hp & Hq & _); [|exact Hnd].
+    destruct (decide (q = p)) as [->|Hne]; unfold ptok, pevents, pstore; [|rewrite Hq by assumption; apply HT].
+    rewrite Hp. specialize (HT p). unfold ptok, pevents, pstore in HT.
+    destruct (react1_cases (getp s p)) as [[E0 E]|[(k & E0 & E1 & E)|[(k & c & E0 & E1 & E2 & E)|(k & c & E0 & E1 & E2 & E)]]];
+      rewrite E; cbn [fst]; [exact HT| | |].
+    + exfalso. apply (proj2 HT); [rewrite E0; discriminate|exact E1].
+    + simpl. split; intros; [discriminate|discriminate].
+    + simpl. split; intros; [discriminate|discriminate].
+  - apply step_deliver in Hstep as (o & rest & _ & _ & _ & _ & Hp & Hq & _); [|exact Hnd].
+    destruct (decide (q = dst)) as [->|Hne]; unfold ptok, pevents, pstore; [|rewrite Hq by assumption; apply HT].
+    rewrite Hp. specialize (HT dst). unfold ptok, pevents, pstore in HT. unfold request_peer.
+    destruct (served (getp s dst)); [exact HT|exact HT].
+  - apply step_download in Hstep as (o & rest & _ & _ & _ & _ & _ & Hp & Hq).
+    destruct (decide (q = p)) as [->|Hne]; unfold ptok, pevents, pstore; [|rewrite Hq by assumption; apply HT].
+    rewrite Hp. specialize (HT p). unfold ptok, pevents, pstore in HT. unfold download_peer.
+    destruct (pserved s o); simpl; [split; intros; discriminate|exact HT].
+  - apply step_join in Hstep as (_ & _ & _ & _ & _ & Hpc & Hph & Hq & _).
+    destruct (decide (q = c)) as [->|Hne]; unfold ptok, pevents, pstore.
+    + rewrite Hpc. simpl. split; [discriminate|congruence].
+    + destruct (decide (q = host)) as [->|Hnh]; [rewrite Hph; simpl; apply HT|rewrite Hq by assumption; apply HT].
+Qed.
+
+Lemma tokev_run tr : forall s s', awf s -> TokEv s -> arun s tr = Some s' -> TokEv s'.
+Proof.
+  induction tr as [|e tr IH]; intros s s' Hwf HT Hrun; simpl in Hrun; [inversion Hrun; subst; exact HT|].
+  destruct (astep s e) as [s1|] eqn:Hstep; [|discriminate].
+  apply (IH s1 s' (step_wf _ _ _ Hwf Hstep)); [|exact Hrun].
+  destruct e as [p v|p|p|src dst|p|c pre]; try (eapply tokev_step1; [|apply wf_nodup; exact Hwf|exact HT|exact Hstep]; exact I).
+  apply step_react_runs in Hstep.
+  pose (P := fun s1 => awf s1 /\ TokEv s1). assert (HP : P s1); [|apply HP].
+  eapply (react1s_ind P p); [|split; [exact Hwf|exact HT]|exact Hstep].
+  intros s2 s3 [Hw2 HT2] H23. split; [eapply step_wf; eauto|].
+  eapply tokev_step1; [|apply wf_nodup; exact Hw2|exact HT2|exact H23]. exact I.
+Qed.
+
+Theorem quiescent_is_drained n tr s' :
+  arun (ainit n) tr = Some s' ->
+  (aquiescent s' <->
+   (forall a b, link s' a b = []) /\ (forall p, ppending s' p = []) /\ (forall p, pevents s' p = 0%nat)).
+Proof.
+  intros Hrun. split.
+  - intros Hq. split; [intros; apply quiescent_link; exact Hq|]. split; intros p; apply (quiescent_peer s' p Hq).
+  - intros (Hl & Hp & He). apply quiescent_intro; [exact Hl|]. intros p. split; [apply He|]. split; [|apply Hp].
+    assert (HT : TokEv s').
+    { eapply tokev_run; [apply ainit_wf| |exact Hrun]. intros q. unfold ptok, pevents, pstore. rewrite ainit_getp. simpl.
+      split; [discriminate|congruence]. }
+    destruct (ptok s' p) eqn:Ht; [|reflexivity]. exfalso. apply (proj1 (HT p) Ht). apply He.
+Qed.
+
+(* ---------- traffic --------------------------------------------------------------------------------
+   potential: the messages the publisher's unread events and its uplink messages can still cause *)
+Definition phi (w : peer) (s : astate) : nat :=
+  let N := length (aconn s) in
+  (pevents s w * N + (if decide (w = host) then 0 else length (link s w host) * (N - 1)))%nat.
+
+Lemma others_length_lt w l : w ∈ l -> (length (others w l) < length l)%nat.
+Proof. intros Hin. unfold others. eapply filter_length_lt; [exact Hin|]. intros H. apply H. reflexivity. Qed.
+
+Lemma traffic_step1 w s e s' :
+  match e with AReact1 _ | ADeliver _ _ | ADownload _ => True | _ => False end ->
+  awf s -> Inv w s -> astep s e = Some s' ->
+  aconn s' = aconn s /\ (sent1 s e + phi w s' <= phi w s)%nat.
+Proof.
+  intros He Hwf HI Hstep. pose proof (wf_nodup s Hwf) as Hnd.
+  destruct e as [p v|p|p|src dst|p|c pre]; try contradiction.
+  - (* AReact1 *)
+    apply step_react1 in Hstep as (Hex & Hc & _ & Hp & Hq & Hl); [|exact Hnd]. split; [exact Hc|].
+    unfold phi. rewrite Hc. cbn [sent1].
+    destruct (react1_cases (getp s p)) as [[E0 E]|[(k & E0 & E1 & E)|[(k & c & E0 & E1 & E2 & E)|(k & c & E0 & E1 & E2 & E)]]].
+    + rewrite E in *. cbn [fst snd] in *.
+      assert (Hlk : link s' w host = link s w host).
+      { rewrite Hl. cdec as [[Hf _]|_]; [discriminate|reflexivity]. }
+      assert (Hew : pevents s' w = pevents s w).
+      { unfold pevents. destruct (decide (w = p)) as [->|Hne]; [rewrite Hp; reflexivity|rewrite Hq by assumption; reflexivity]. }
+      rewrite Hlk, Hew. lia.
+    + exfalso. eapply (inv_ev_store _ _ HI p); [unfold pevents; rewrite E0; discriminate|exact E1].
+    + assert (Hpw : p <> w). { intros ->. pose proof (inv_tok _ _ HI) as Ht. unfold ptok in Ht. congruence. }
+      rewrite E in *. cbn [fst snd] in *.
+      assert (Hlk : link s' w host = link s w host).
+      { rewrite Hl. cdec as [[Hf _]|_]; [discriminate|reflexivity]. }
+      unfold pevents. rewrite (Hq w) by congruence. rewrite Hlk. lia.
+    + destruct (decide (p = w)) as [->|Hpw].
+      2:{ exfalso. destruct (inv_recv _ _ HI p Hpw) as [_ [[H0 _]|[_ H1]]]; unfold pevents, ptok in *; congruence. }
+      rewrite E in *. cbn [fst snd] in *. unfold pevents. rewrite Hp. cbn [events]. rewrite E0.
+      rewrite Hl. unfold dsts_of. destruct (decide (w = host)) as [->|Hwh].
+      * change (host =? host)%N with true. cbv iota. lia.
+      * destruct (w =? host)%N eqn:E'; [apply N.eqb_eq in E'; contradiction|].
+        destruct (decide (true = true /\ w = w /\ host ∈ [host])) as [_|Hn];
+          [|exfalso; apply Hn; split; [reflexivity|split; [reflexivity|apply elem_of_list_singleton; reflexivity]]].
+        rewrite app_length.
+        assert (Hin : w ∈ aconn s). { apply (wf_exists s w Hwf) in Hex as [?|?]; [contradiction|assumption]. }
+        assert (length (aconn s) >= 1)%nat by (destruct (aconn s); [inversion Hin|simpl; lia]).
+        simpl. nia.
+  - (* ADeliver *)
+    apply step_deliver in Hstep as (o & rest & Hl0 & Hd & Hc & _ & Hp & Hq & Hl); [|exact Hnd]. split; [exact Hc|].
+    destruct (deliver_shape w s src dst o rest Hwf HI Hl0) as (-> & Hdw & Hsd & Hshape).
+    unfold phi. rewrite Hc. unfold pevents. rewrite (Hq w) by congruence. cbn [sent1]. rewrite Hl0.
+    destruct Hshape as [(-> & Hin & Hdh)|(-> & -> & Hwh & Hin)].
+    + destruct (dst =? host)%N eqn:E; [apply N.eqb_eq in E; contradiction|].
+      rewrite Hl. destruct (decide ((w, host) = (host, dst))) as [Heq|_]; [inversion Heq; congruence|].
+      destruct (decide (dst = host /\ _)) as [[? _]|_]; [contradiction|]. rewrite app_nil_r. lia.
+    + change (host =? host)%N with true. cbv iota.
+      destruct (decide (w = host)) as [?|_]; [contradiction|].
+      rewrite Hl. destruct (decide ((w, host) = (w, host))) as [_|?]; [|congruence].
+      destruct (decide (host = host /\ w = host /\ _)) as [(_ & ? & _)|_]; [contradiction|]. rewrite app_nil_r.
+      rewrite Hl0. cbn [length]. pose proof (others_length_lt w (aconn s) Hin). nia.
+  - (* ADownload *)
+    apply step_download in Hstep as (o & rest & Hp0 & Hex & Hc & Hl & _ & Hp & Hq). split; [exact Hc|].
+    assert (Hpw : p <> w). { intros ->. rewrite (inv_pend _ _ HI) in Hp0. discriminate. }
+    unfold phi, link, pevents. rewrite Hc, Hl, (Hq w) by congruence. simpl. lia.
+Qed.
+
+Definition tr_ok (w : peer) (e : aevent) : Prop :=
+  match e with APublish q _ => q = w | AJoin _ _ => False | _ => True end.
+
+Lemma tr_ok_ev_ok w e : tr_ok w e -> ev_ok w e.
+Proof. destruct e; simpl; tauto. Qed.
+
+Lemma traffic_react w p k : forall s s',
+  awf s -> Inv w s -> areact_n k s p = Some s' ->
+  aconn s' = aconn s /\ (sent_react k s p + phi w s' <= phi w s)%nat.
+Proof.
+  induction k as [|k IHk]; intros s s' Hwf HI Hstep; simpl in Hstep |- *.
+  - inversion Hstep; subst. split; [reflexivity|lia].
+  - destruct (areact1 s p) as [s2|] eqn:H2; [|discriminate].
+    destruct (traffic_step1 w s (AReact1 p) s2 I Hwf HI H2) as [Hc2 Hle2].
+    destruct (inv_step1 w s (AReact1 p) s2 I Hwf HI I eq_refl H2) as [HI2 _].
+    destruct (IHk s2 s' (step_wf _ (AReact1 p) _ Hwf H2) HI2 Hstep) as [Hc1 Hle1].
+    split; [congruence|]. lia.
+Qed.
+
+Lemma traffic_run w tr : forall s s',
+  awf s -> Inv w s -> Forall (tr_ok w) tr -> scan bad_S7 s tr = false -> arun s tr = Some s' ->
+  aconn s' = aconn s /\ (total_sent s tr + phi w s' <= phi w s + length (published tr) * length (aconn s))%nat.
+Proof.
+  induction tr as [|e tr IH]; intros s s' Hwf HI Hok Hbad Hrun.
+  - simpl in Hrun. inversion Hrun; subst. simpl. split; [reflexivity|lia].
+  - cbn [arun] in Hrun. cbn [total_sent]. cbn [scan] in Hbad. destruct (astep s e) as [s1|] eqn:Hstep; [|discriminate].
+    apply orb_false_iff in Hbad as [Hb1 Hb2]. apply Forall_cons in Hok as [He Hok].
+    destruct (inv_step w s e s1 Hwf HI (tr_ok_ev_ok _ _ He) Hb1 Hstep) as [HI1 _].
+    destruct (IH s1 s' (step_wf _ _ _ Hwf Hstep) HI1 Hok Hb2 Hrun) as [Hcn IHle].
+    assert (H1 : aconn s1 = aconn s /\
+                 (sent_by s e + phi w s1 <= phi w s + (match e with APublish _ _ => length (aconn s) | _ => 0 end))%nat).
+    { destruct e as [p v|p|p|src dst|p|c pre]; [| | | | |contradiction].
+      - simpl in He. subst p. apply step_publish in Hstep as (_ & Hc & Hl & _ & Hp & _). split; [exact Hc|].
+        unfold phi, link, pevents. rewrite Hc, Hl, Hp. cbn [events sent_by sent1]. unfold pevents. rewrite Nat.mul_succ_l. destruct (decide (w = host)); lia.
+      - simpl in Hstep. simpl sent_by.
+        destruct (ap s !! p) as [x|] eqn:Hx; [|discriminate]. unfold pevents. rewrite (getp_exists _ _ _ Hx).
+        destruct (traffic_react w p (events x) s s1 Hwf HI Hstep) as [Hc Hle]. split; [exact Hc|]. lia.
+      - destruct (traffic_step1 w s (AReact1 p) s1 I Hwf HI Hstep) as [Hc Hle]. split; [exact Hc|]. simpl sent_by. lia.
+      - destruct (traffic_step1 w s (ADeliver src dst) s1 I Hwf HI Hstep) as [Hc Hle]. split; [exact Hc|]. simpl sent_by. lia.
+      - destruct (traffic_step1 w s (ADownload p) s1 I Hwf HI Hstep) as [Hc Hle]. split; [exact Hc|]. simpl sent_by. lia. }
+    destruct H1 as [Hc1 Hle1]. rewrite Hc1 in *. split; [exact Hcn|].
+    rewrite published_cons. destruct e; simpl length; lia.
+Qed.
+
+Lemma phi_quiescent w s : aquiescent s -> phi w s = 0%nat.
+Proof.
+  intros Hq. unfold phi. destruct (quiescent_peer s w Hq) as (-> & _ & _). rewrite (quiescent_link s w host Hq).
+  simpl. destruct (decide (w = host)); lia.
+Qed.
+
+Lemma tr_ok_of w tr : only_publisher w tr -> no_joins tr -> Forall (tr_ok w) tr.
+Proof.
+  unfold only_publisher, no_joins. induction tr as [|e tr IH]; intros Hp Hj; [constructor|].
+  destruct e as [p v|p|p|src dst|p|c pre]; simpl in Hp, Hj; try (constructor; [exact I|apply IH; assumption]).
+  - apply Forall_cons in Hp as [-> Hp]. constructor; [reflexivity|apply IH; assumption].
+  - discriminate.
+Qed.
+
+(* k publications of one peer cause at most k * n messages (relays included) in every run outside the
+   class S7, whatever the interleaving *)
+Theorem asset_messages_bounded_run n w tr s' :
+  arun (ainit n) tr = Some s' -> only_publisher w tr -> no_joins tr -> known_S7 (ainit n) tr = false ->
+  (total_sent (ainit n) tr <= length (published tr) * n)%nat.
+Proof.
+  intros Hrun Hop Hnj Hk.
+  destruct (traffic_run w tr (ainit n) s' (ainit_wf n) (inv_init w n) (tr_ok_of w tr Hop Hnj) Hk Hrun) as [_ Hle].
+  rewrite (phi_quiescent w _ (ainit_quiescent n)) in Hle. simpl aconn in Hle. rewrite length_clients in Hle. lia.
+Qed.
+Print Assumptions asset_messages_bounded_run.
+
+(* the first publication costs at most n messages: 1 + (n-1) relays for a client, n for the host *)
+Theorem asset_messages_bounded n p c rest s' :
+  Forall plain rest -> arun (ainit n) (APublish p c :: rest) = Some s' ->
+  (total_sent (ainit n) (APublish p c :: rest) <= n)%nat.
+Proof.
+  intros Hpl Hrun. destruct (plain_trace rest Hpl) as (H1 & H2 & H3 & H4).
+  assert (Hop : only_publisher p (APublish p c :: rest)) by (unfold only_publisher; simpl; rewrite H2; repeat constructor).
+  assert (Hnj : no_joins (APublish p c :: rest)) by (unfold no_joins; simpl; exact H3).
+  assert (Hj : joins_ok p (APublish p c :: rest)).
+  { unfold joins_ok, fresh_joins. rewrite Hnj. destruct (decide (p = host)); [constructor|reflexivity]. }
+  assert (Hops : ops_at_quiescence (ainit n) (APublish p c :: rest) = true).
+  { cbn [ops_at_quiescence]. cbn [arun] in Hrun. destruct (astep (ainit n) (APublish p c)) as [s1|]; [|discriminate].
+    rewrite H4. simpl. rewrite andb_true_r. apply bool_decide_eq_true. apply ainit_quiescent. }
+  destruct (drain_separated_never_S7 n p _ s' Hrun Hop Hj Hops) as [Hk _].
+  pose proof (asset_messages_bounded_run n p _ s' Hrun Hop Hnj Hk) as Hle.
+  rewrite published_cons, H1 in Hle. simpl in Hle. lia.
+Qed.
+Print Assumptions asset_messages_bounded.
+
+Example traffic_tight :
+  total_sent (ainit 3) [APublish 1 10; AReact 1; ADeliver 1 0; ADownload 0; AReact 0; ADeliver 0 2; ADeliver 0 3;
+                        ADownload 2; ADownload 3; AReact 2; AReact 3] = 3%nat /\
+  total_sent (ainit 3) [APublish 0 10; AReact 0; ADeliver 0 1; ADeliver 0 2; ADeliver 0 3;
+                        ADownload 1; ADownload 2; ADownload 3; AReact 1; AReact 2; AReact 3] = 3%nat.
+Proof. vm_compute. auto. Qed.
